@@ -240,7 +240,7 @@ fn cells(k: i32, x1: i32, x2: i32) -> i32 {
     if hi > lo { hi - lo } else { 0 }
 }
 
-// @ob id=K.mask_super_blit_span props=C01,C07 kind=bounded:width<=4,rows=2 tier=quick timeout=900 fns=MaskSuperBlitter::blit_span
+// @ob id=K.mask_super_blit_span props=C01,C07,C02 kind=bounded:width<=4,rows=2 tier=quick timeout=900 fns=MaskSuperBlitter::blit_span
 // @+ desc="MaskSuperBlitter::blit_span on a w x 2 mask (w symbolic <= 4, symbolic origin, symbolic contents): with row=(y-self.y)/4, sub=(y-self.y)&3, x2'=min(x2,4w): every byte of the whole buffer (slack byte included) becomes old + acc where acc = 16*cells for the first and last touched pixel, 64-(sub==3) for pixels strictly between, 0 elsewhere (cells = quarter-pixel cells of that pixel inside [x1,x2')), saturating at 255 when the sum is 256; no index out of bounds (only the one slack byte past the end may be addressed), no u8 overflow under the caller's guarantee that a pixel never accumulates more than 256"
 #[kani::proof]
 #[kani::unwind(11)]
@@ -307,3 +307,1755 @@ pub fn super_blitter_sym(x: i32, y: i32, width: i32, height: i32) -> MaskSuperBl
     while i < 7 { if i < buf.len() { buf[i] = unsafe { COV[i] }; } i += 1; }
     MaskSuperBlitter { x: x * SCALE, y: y * SCALE, width, buf }
 }
+
+// ---------------------------------------------------------------- premultiplied-alpha validity of the kernels (C18 #1-#3)
+// @ob id=K.pm_sources props=C18 kind=complete tier=quick timeout=900 fns=sw_composite::alpha_mul,SolidSource::from_unpremultiplied_argb,SolidSource::from
+// @+ desc="alpha_mul(p, a256) keeps r,g,b <= a for a256 in [1,256]; SolidSource::from_unpremultiplied_argb and From<Color> produce r,g,b <= a for every a,r,g,b"
+#[kani::proof]
+fn k_pm_sources() {
+    let p: u32 = kani::any();
+    let a: u32 = kani::any();
+    kani::assume(pm(p) && a >= 1 && a <= 256);
+    assert!(pm(alpha_mul(p, a)), "alpha_mul keeps r,g,b <= a");
+    let (ca, cr, cg, cb): (u8, u8, u8, u8) = (kani::any(), kani::any(), kani::any(), kani::any());
+    let s = crate::SolidSource::from_unpremultiplied_argb(ca, cr, cg, cb);
+    assert!(s.r <= s.a && s.g <= s.a && s.b <= s.a && s.a == ca, "from_unpremultiplied_argb premultiplies");
+    let s2 = crate::SolidSource::from(Color::new(ca, cr, cg, cb));
+    assert!(s2 == s && pm(s2.to_u32()), "From<Color> premultiplies");
+    assert!(s.to_u32() == ((s.a as u32) << 24) | ((s.r as u32) << 16) | ((s.g as u32) << 8) | (s.b as u32), "to_u32 packs (A<<24)|(R<<16)|(G<<8)|B");
+    kani::cover!(ca == 128 && cr == 255);
+}
+
+// ---------------------------------------------------------------- image sources, integer-translation fast paths (C13 #1-#3)
+pub static mut UF_AMUL: Uf = Uf::new();
+pub fn alpha_mul_uf(x: u32, a: u32) -> u32 { unsafe { UF_AMUL.call([x, a, 0, 0]) } }
+
+// @ob id=K.is_integer_transform props=C13,C07 kind=complete tier=quick timeout=600 fns=is_integer_transform
+// @+ desc="is_integer_transform for every six f32 (NaN and infinities included; finite translations up to 2^30): Some((tx,ty)) exactly when the matrix is [1 0 0 1 tx ty] with tx,ty integral and representable as i32 (then tx,ty are those integers); None otherwise; never panics"
+#[kani::proof]
+fn k_is_integer_transform() {
+    let m: [f32; 6] = kani::any();
+    // translations beyond 2^30 pixels are outside the 16.16 working range (at exactly 2^31 the saturating cast is off by one)
+    kani::assume(!(m[4].is_finite() && m[4].abs() > 1073741824.0) && !(m[5].is_finite() && m[5].abs() > 1073741824.0));
+    let t = Transform::new(m[0], m[1], m[2], m[3], m[4], m[5]);
+    let r = is_integer_transform(&t);
+    let unit = m[0] == 1. && m[1] == 0. && m[2] == 0. && m[3] == 1.;
+    let int_ok = |v: f32| v.is_finite() && v >= -2147483648.0 && v < 2147483648.0 && (v as i32) as f32 == v;
+    match r {
+        Some(p) => assert!(unit && int_ok(m[4]) && int_ok(m[5]) && p.x as f32 == m[4] && p.y as f32 == m[5], "Some only for pure integer translations, with those offsets"),
+        None => assert!(!(unit && int_ok(m[4]) && int_ok(m[5])), "every pure integer translation is recognised"),
+    }
+    kani::cover!(r.is_some());
+    kani::cover!(unit && r.is_none());
+}
+
+fn clampi(v: i32, lo: i32, hi: i32) -> i32 { if v < lo { lo } else if v > hi { hi } else { v } }
+
+// @ob id=K.image_pad_shader props=C13,C07,C06 kind=bounded:image<=3x2,count<=4 tier=quick timeout=900 fns=ImagePadAlphaShader::shade_span,ImagePadAlphaShader::new
+// @+ desc="ImagePadAlphaShader::shade_span for images up to 3x2 (symbolic size and texels), x,y and offsets symbolic in ±2^20, count<=4: dest[i] = alpha_mul(texel(clamp(x+ox+i,0,w-1), clamp(y+oy,0,h-1)), alpha+1) for i<count (texel (i,j) lands on pixel (i-ox, j-oy); outside the image the edge texel is repeated), entries >= count untouched, no out-of-range read; alpha_mul as an uninterpreted function (K.alpha_mul_256 proves alpha_mul(t,256)==t)"
+#[kani::proof]
+#[kani::unwind(8)]
+#[kani::stub(sw_composite::alpha_mul, alpha_mul_uf)]
+fn k_image_pad_shader() {
+    let data: [u32; 6] = kani::any();
+    let w: i32 = kani::any();
+    let h: i32 = kani::any();
+    kani::assume(w >= 1 && w <= 3 && h >= 1 && h <= 2);
+    let img = Image { width: w, height: h, data: &data[..(w * h) as usize] };
+    let (ox, oy, x, y): (i32, i32, i32, i32) = (kani::any(), kani::any(), kani::any(), kani::any());
+    kani::assume(ox >= -(1 << 20) && ox <= 1 << 20 && oy >= -(1 << 20) && oy <= 1 << 20 && x >= -(1 << 20) && x <= 1 << 20 && y >= -(1 << 20) && y <= 1 << 20);
+    let alpha: u32 = kani::any();
+    kani::assume(alpha <= 255);
+    let sh = ImagePadAlphaShader::new(&img, ox, oy, alpha);
+    let mut dest = [0xdeadbeefu32; 5];
+    let count: usize = kani::any();
+    kani::assume(count <= 4);
+    sh.shade_span(x, y, &mut dest[..], count);
+    let yy = clampi(y + oy, 0, h - 1);
+    let mut i = 0;
+    while i < 5 {
+        if i < count {
+            let xx = clampi(x + ox + i as i32, 0, w - 1);
+            assert!(dest[i] == alpha_mul(data[(yy * w + xx) as usize], alpha + 1), "texel under the pixel, clamped to the edge, scaled by the global alpha");
+        } else {
+            assert!(dest[i] == 0xdeadbeef, "entries beyond count untouched");
+        }
+        i += 1;
+    }
+    kani::cover!(count == 4 && x + ox == -1 && w == 2);
+    kani::cover!(count == 3 && x + ox >= w);
+}
+
+// @ob id=K.image_repeat_shader props=C13,C07 kind=bounded:image<=3x2,count<=4 tier=quick timeout=900 fns=ImageRepeatAlphaShader::shade_span,ImageRepeatAlphaShader::new
+// @+ desc="ImageRepeatAlphaShader::shade_span, same domain: dest[i] = alpha_mul(texel((x+ox+i) mod w, (y+oy) mod h), alpha+1) with Euclidean modulo (negative coordinates wrap too, runs crossing the right edge restart at column 0), entries >= count untouched, no out-of-range read"
+#[kani::proof]
+#[kani::unwind(8)]
+#[kani::stub(sw_composite::alpha_mul, alpha_mul_uf)]
+fn k_image_repeat_shader() {
+    let data: [u32; 6] = kani::any();
+    let w: i32 = kani::any();
+    let h: i32 = kani::any();
+    kani::assume(w >= 1 && w <= 3 && h >= 1 && h <= 2);
+    let img = Image { width: w, height: h, data: &data[..(w * h) as usize] };
+    let (ox, oy, x, y): (i32, i32, i32, i32) = (kani::any(), kani::any(), kani::any(), kani::any());
+    kani::assume(ox >= -(1 << 20) && ox <= 1 << 20 && oy >= -(1 << 20) && oy <= 1 << 20 && x >= -(1 << 20) && x <= 1 << 20 && y >= -(1 << 20) && y <= 1 << 20);
+    let alpha: u32 = kani::any();
+    kani::assume(alpha <= 255);
+    let sh = ImageRepeatAlphaShader::new(&img, ox, oy, alpha);
+    let mut dest = [0xdeadbeefu32; 5];
+    let count: usize = kani::any();
+    kani::assume(count <= 4);
+    sh.shade_span(x, y, &mut dest[..], count);
+    let yy = (y + oy).rem_euclid(h);
+    let mut i = 0;
+    while i < 5 {
+        if i < count {
+            let xx = (x + ox + i as i32).rem_euclid(w);
+            assert!(dest[i] == alpha_mul(data[(yy * w + xx) as usize], alpha + 1), "texel under the pixel, wrapped modulo the image size, scaled by the global alpha");
+        } else {
+            assert!(dest[i] == 0xdeadbeef, "entries beyond count untouched");
+        }
+        i += 1;
+    }
+    kani::cover!(count == 4 && w == 3 && x + ox < 0);
+}
+
+// @ob id=K.alpha_mul_256 props=C13,C06,C03 kind=complete tier=quick timeout=300 fns=sw_composite::alpha_mul
+// @+ desc="alpha_mul(t, 256) == t for every word: global alpha 1 (alpha byte 255) returns the texel unchanged; alpha_mul(t, 1) has zero alpha for every premultiplied... (alpha byte 0 gives a transparent source)"
+#[kani::proof]
+fn k_alpha_mul_256() {
+    let t: u32 = kani::any();
+    assert!(alpha_mul(t, 256) == t, "alpha 1 leaves the texel unchanged");
+    assert!(alpha_mul(t, alpha_to_alpha256(0)) >> 24 == 0, "alpha 0 gives zero alpha");
+    kani::cover!(true);
+}
+
+// @ob id=K.mask_blit_span props=C01,C02,C07 kind=bounded:width<=4,rows=2 tier=quick timeout=900 fns=MaskBlitter::blit_span
+// @+ desc="bounded twin of lane-V unit mask_blitter (supplies counterexamples): MaskBlitter::blit_span on a w x 2 mask (w<=4, symbolic origin and contents): on a first sample row exactly bytes row*w + [x1>>2, min(x2,4w)>>2) become 0xff, on other sample rows nothing changes; every other byte (slack byte included) is unchanged; no out-of-bounds write for spans reaching past the right edge"
+#[kani::proof]
+#[kani::unwind(11)]
+fn k_mask_blit_span() {
+    let w: i32 = kani::any();
+    kani::assume(w >= 0 && w <= 4);
+    let ox: i32 = kani::any();
+    let oy: i32 = kani::any();
+    kani::assume(ox >= -50 && ox <= 50 && oy >= -50 && oy <= 50);
+    let old: [u8; 9] = kani::any();
+    let n = (w * 2) as usize + 1;
+    let mut b = MaskBlitter { x: ox * 4, y: oy * 4, width: w, buf: old[..n].to_vec() };
+    let y: i32 = kani::any();
+    let x1: i32 = kani::any();
+    let x2: i32 = kani::any();
+    kani::assume(y >= oy * 4 && y < oy * 4 + 8);
+    kani::assume(x1 >= ox * 4 && x1 <= x2 && x2 <= 1000 && x1 - ox * 4 <= 4 * w);
+    b.blit_span(y, x1, x2);
+    let yl = y - oy * 4;
+    let (p1, p2) = ((x1 - ox * 4) >> 2, ((x2 - ox * 4).min(4 * w)) >> 2);
+    let mut i = 0;
+    while i < 9 {
+        if i < n {
+            let k = i as i32 - (yl / 4) * w;
+            let hit = yl % 4 == 0 && k >= p1 && k < p2;
+            assert!(b.buf[i] == if hit { 0xff } else { old[i] }, "aliased mask: first sample row only, pixels [x1>>2, x2>>2)");
+        }
+        i += 1;
+    }
+    assert!(b.buf.len() == n, "frame");
+    kani::cover!(w == 4 && p2 - p1 == 4 && yl == 4);
+    kani::cover!(x2 - ox * 4 > 4 * w + 8);
+}
+
+// ---------------------------------------------------------------- premultiplied validity of the blend kernels (C18 #1, #2)
+// CBMC decides "r,g,b <= a is preserved" only when the coverage/weight is a constant (symbolic x symbolic products and a
+// conjunction over several weights both time out), so every one of the 256 coverage values of over_in and the 257 weights of
+// lerp is its own loop-free obligation over all 64 bits of (src, dst).  Together they are the complete statement.
+// over_in_in and alpha_lerp reduce to over_in / lerp at a derived weight (K.pm_reductions).
+macro_rules! pm_over_in_at { ($name:ident, $m:expr) => {
+    #[kani::proof]
+    fn $name() {
+        let s: u32 = kani::any();
+        let d: u32 = kani::any();
+        kani::assume(pm(s) && pm(d));
+        assert!(pm(over_in(s, d, $m)), "over_in keeps r,g,b <= a");
+        kani::cover!(true);
+    } } }
+macro_rules! pm_lerp_at { ($name:ident, $t:expr) => {
+    #[kani::proof]
+    fn $name() {
+        let b: u32 = kani::any();
+        let d: u32 = kani::any();
+        kani::assume(pm(b) && pm(d));
+        assert!(pm(lerp(d, b, $t)), "lerp keeps r,g,b <= a");
+        kani::cover!(true);
+    } } }
+
+// @ob id=K.pm_reduction_alpha_lerp props=C18,C03 kind=complete tier=quick timeout=600 fns=sw_composite::alpha_lerp
+// @+ desc="alpha_lerp(d,b,m,c) == lerp(d,b,k) with k = (p + (p >> 8)) >> 8, p = c*(m+1), k in [0,255]: the clipped interpolation is the unclipped one at a derived weight, for all inputs"
+#[kani::proof]
+fn k_pm_reduction_alpha_lerp() {
+    let s: u32 = kani::any();
+    let d: u32 = kani::any();
+    let m: u8 = kani::any();
+    let c: u8 = kani::any();
+    let p = alpha_to_alpha256(m as u32) * (c as u32);
+    let k = (p + (p >> 8)) >> 8;
+    assert!(k <= 255, "derived weight is a coverage byte");
+    assert!(alpha_lerp(d, s, m as u32, c as u32) == lerp(d, s, k), "alpha_lerp == lerp at the derived weight");
+    kani::cover!(k == 255);
+}
+
+// @ob id=K.pm_reduction_over_in_in props=C18,C03 kind=complete tier=quick timeout=900 fns=sw_composite::over_in_in
+// @+ desc="over_in_in(s,d,m,c) == over_in(s,d,k) with k = (p + (p >> 8)) >> 8, p = c*(m+1): the clipped source-over is the unclipped one at a derived coverage, for all premultiplied inputs"
+#[kani::proof]
+fn k_pm_reduction_over_in_in() {
+    let s: u32 = kani::any();
+    let d: u32 = kani::any();
+    let m: u8 = kani::any();
+    let c: u8 = kani::any();
+    kani::assume(pm(s) && pm(d));
+    let p = (c as u32) * alpha_to_alpha256(m as u32);
+    let k = (p + (p >> 8)) >> 8;
+    assert!(k <= 255, "derived weight is a coverage byte");
+    assert!(over_in_in(s, d, m as u32, c as u32) == over_in(s, d, k), "over_in_in == over_in at the derived weight");
+    kani::cover!(k == 255);
+}
+
+// @ob id=K.pm_over_in_000 props=C18 kind=complete tier=quick timeout=900 fns=sw_composite::over_in
+// @+ desc="over_in(s,d,0) keeps r,g,b <= a for all premultiplied s,d (one of the 256 coverage values; all 256 together are the complete statement)"
+pm_over_in_at!(k_pm_over_in_000, 0);
+// @ob id=K.pm_over_in_001 props=C18 kind=complete tier=quick timeout=900 fns=sw_composite::over_in
+// @+ desc="over_in(s,d,1) keeps r,g,b <= a for all premultiplied s,d (one of the 256 coverage values; all 256 together are the complete statement)"
+pm_over_in_at!(k_pm_over_in_001, 1);
+// @ob id=K.pm_over_in_002 props=C18 kind=complete tier=thorough timeout=900 fns=sw_composite::over_in
+// @+ desc="over_in(s,d,2) keeps r,g,b <= a for all premultiplied s,d (one of the 256 coverage values; all 256 together are the complete statement)"
+pm_over_in_at!(k_pm_over_in_002, 2);
+// @ob id=K.pm_over_in_003 props=C18 kind=complete tier=thorough timeout=900 fns=sw_composite::over_in
+// @+ desc="over_in(s,d,3) keeps r,g,b <= a for all premultiplied s,d (one of the 256 coverage values; all 256 together are the complete statement)"
+pm_over_in_at!(k_pm_over_in_003, 3);
+// @ob id=K.pm_over_in_004 props=C18 kind=complete tier=thorough timeout=900 fns=sw_composite::over_in
+// @+ desc="over_in(s,d,4) keeps r,g,b <= a for all premultiplied s,d (one of the 256 coverage values; all 256 together are the complete statement)"
+pm_over_in_at!(k_pm_over_in_004, 4);
+// @ob id=K.pm_over_in_005 props=C18 kind=complete tier=thorough timeout=900 fns=sw_composite::over_in
+// @+ desc="over_in(s,d,5) keeps r,g,b <= a for all premultiplied s,d (one of the 256 coverage values; all 256 together are the complete statement)"
+pm_over_in_at!(k_pm_over_in_005, 5);
+// @ob id=K.pm_over_in_006 props=C18 kind=complete tier=thorough timeout=900 fns=sw_composite::over_in
+// @+ desc="over_in(s,d,6) keeps r,g,b <= a for all premultiplied s,d (one of the 256 coverage values; all 256 together are the complete statement)"
+pm_over_in_at!(k_pm_over_in_006, 6);
+// @ob id=K.pm_over_in_007 props=C18 kind=complete tier=thorough timeout=900 fns=sw_composite::over_in
+// @+ desc="over_in(s,d,7) keeps r,g,b <= a for all premultiplied s,d (one of the 256 coverage values; all 256 together are the complete statement)"
+pm_over_in_at!(k_pm_over_in_007, 7);
+// @ob id=K.pm_over_in_008 props=C18 kind=complete tier=thorough timeout=900 fns=sw_composite::over_in
+// @+ desc="over_in(s,d,8) keeps r,g,b <= a for all premultiplied s,d (one of the 256 coverage values; all 256 together are the complete statement)"
+pm_over_in_at!(k_pm_over_in_008, 8);
+// @ob id=K.pm_over_in_009 props=C18 kind=complete tier=thorough timeout=900 fns=sw_composite::over_in
+// @+ desc="over_in(s,d,9) keeps r,g,b <= a for all premultiplied s,d (one of the 256 coverage values; all 256 together are the complete statement)"
+pm_over_in_at!(k_pm_over_in_009, 9);
+// @ob id=K.pm_over_in_010 props=C18 kind=complete tier=thorough timeout=900 fns=sw_composite::over_in
+// @+ desc="over_in(s,d,10) keeps r,g,b <= a for all premultiplied s,d (one of the 256 coverage values; all 256 together are the complete statement)"
+pm_over_in_at!(k_pm_over_in_010, 10);
+// @ob id=K.pm_over_in_011 props=C18 kind=complete tier=thorough timeout=900 fns=sw_composite::over_in
+// @+ desc="over_in(s,d,11) keeps r,g,b <= a for all premultiplied s,d (one of the 256 coverage values; all 256 together are the complete statement)"
+pm_over_in_at!(k_pm_over_in_011, 11);
+// @ob id=K.pm_over_in_012 props=C18 kind=complete tier=thorough timeout=900 fns=sw_composite::over_in
+// @+ desc="over_in(s,d,12) keeps r,g,b <= a for all premultiplied s,d (one of the 256 coverage values; all 256 together are the complete statement)"
+pm_over_in_at!(k_pm_over_in_012, 12);
+// @ob id=K.pm_over_in_013 props=C18 kind=complete tier=thorough timeout=900 fns=sw_composite::over_in
+// @+ desc="over_in(s,d,13) keeps r,g,b <= a for all premultiplied s,d (one of the 256 coverage values; all 256 together are the complete statement)"
+pm_over_in_at!(k_pm_over_in_013, 13);
+// @ob id=K.pm_over_in_014 props=C18 kind=complete tier=thorough timeout=900 fns=sw_composite::over_in
+// @+ desc="over_in(s,d,14) keeps r,g,b <= a for all premultiplied s,d (one of the 256 coverage values; all 256 together are the complete statement)"
+pm_over_in_at!(k_pm_over_in_014, 14);
+// @ob id=K.pm_over_in_015 props=C18 kind=complete tier=thorough timeout=900 fns=sw_composite::over_in
+// @+ desc="over_in(s,d,15) keeps r,g,b <= a for all premultiplied s,d (one of the 256 coverage values; all 256 together are the complete statement)"
+pm_over_in_at!(k_pm_over_in_015, 15);
+// @ob id=K.pm_over_in_016 props=C18 kind=complete tier=thorough timeout=900 fns=sw_composite::over_in
+// @+ desc="over_in(s,d,16) keeps r,g,b <= a for all premultiplied s,d (one of the 256 coverage values; all 256 together are the complete statement)"
+pm_over_in_at!(k_pm_over_in_016, 16);
+// @ob id=K.pm_over_in_017 props=C18 kind=complete tier=thorough timeout=900 fns=sw_composite::over_in
+// @+ desc="over_in(s,d,17) keeps r,g,b <= a for all premultiplied s,d (one of the 256 coverage values; all 256 together are the complete statement)"
+pm_over_in_at!(k_pm_over_in_017, 17);
+// @ob id=K.pm_over_in_018 props=C18 kind=complete tier=thorough timeout=900 fns=sw_composite::over_in
+// @+ desc="over_in(s,d,18) keeps r,g,b <= a for all premultiplied s,d (one of the 256 coverage values; all 256 together are the complete statement)"
+pm_over_in_at!(k_pm_over_in_018, 18);
+// @ob id=K.pm_over_in_019 props=C18 kind=complete tier=thorough timeout=900 fns=sw_composite::over_in
+// @+ desc="over_in(s,d,19) keeps r,g,b <= a for all premultiplied s,d (one of the 256 coverage values; all 256 together are the complete statement)"
+pm_over_in_at!(k_pm_over_in_019, 19);
+// @ob id=K.pm_over_in_020 props=C18 kind=complete tier=thorough timeout=900 fns=sw_composite::over_in
+// @+ desc="over_in(s,d,20) keeps r,g,b <= a for all premultiplied s,d (one of the 256 coverage values; all 256 together are the complete statement)"
+pm_over_in_at!(k_pm_over_in_020, 20);
+// @ob id=K.pm_over_in_021 props=C18 kind=complete tier=thorough timeout=900 fns=sw_composite::over_in
+// @+ desc="over_in(s,d,21) keeps r,g,b <= a for all premultiplied s,d (one of the 256 coverage values; all 256 together are the complete statement)"
+pm_over_in_at!(k_pm_over_in_021, 21);
+// @ob id=K.pm_over_in_022 props=C18 kind=complete tier=thorough timeout=900 fns=sw_composite::over_in
+// @+ desc="over_in(s,d,22) keeps r,g,b <= a for all premultiplied s,d (one of the 256 coverage values; all 256 together are the complete statement)"
+pm_over_in_at!(k_pm_over_in_022, 22);
+// @ob id=K.pm_over_in_023 props=C18 kind=complete tier=thorough timeout=900 fns=sw_composite::over_in
+// @+ desc="over_in(s,d,23) keeps r,g,b <= a for all premultiplied s,d (one of the 256 coverage values; all 256 together are the complete statement)"
+pm_over_in_at!(k_pm_over_in_023, 23);
+// @ob id=K.pm_over_in_024 props=C18 kind=complete tier=thorough timeout=900 fns=sw_composite::over_in
+// @+ desc="over_in(s,d,24) keeps r,g,b <= a for all premultiplied s,d (one of the 256 coverage values; all 256 together are the complete statement)"
+pm_over_in_at!(k_pm_over_in_024, 24);
+// @ob id=K.pm_over_in_025 props=C18 kind=complete tier=thorough timeout=900 fns=sw_composite::over_in
+// @+ desc="over_in(s,d,25) keeps r,g,b <= a for all premultiplied s,d (one of the 256 coverage values; all 256 together are the complete statement)"
+pm_over_in_at!(k_pm_over_in_025, 25);
+// @ob id=K.pm_over_in_026 props=C18 kind=complete tier=thorough timeout=900 fns=sw_composite::over_in
+// @+ desc="over_in(s,d,26) keeps r,g,b <= a for all premultiplied s,d (one of the 256 coverage values; all 256 together are the complete statement)"
+pm_over_in_at!(k_pm_over_in_026, 26);
+// @ob id=K.pm_over_in_027 props=C18 kind=complete tier=thorough timeout=900 fns=sw_composite::over_in
+// @+ desc="over_in(s,d,27) keeps r,g,b <= a for all premultiplied s,d (one of the 256 coverage values; all 256 together are the complete statement)"
+pm_over_in_at!(k_pm_over_in_027, 27);
+// @ob id=K.pm_over_in_028 props=C18 kind=complete tier=thorough timeout=900 fns=sw_composite::over_in
+// @+ desc="over_in(s,d,28) keeps r,g,b <= a for all premultiplied s,d (one of the 256 coverage values; all 256 together are the complete statement)"
+pm_over_in_at!(k_pm_over_in_028, 28);
+// @ob id=K.pm_over_in_029 props=C18 kind=complete tier=thorough timeout=900 fns=sw_composite::over_in
+// @+ desc="over_in(s,d,29) keeps r,g,b <= a for all premultiplied s,d (one of the 256 coverage values; all 256 together are the complete statement)"
+pm_over_in_at!(k_pm_over_in_029, 29);
+// @ob id=K.pm_over_in_030 props=C18 kind=complete tier=thorough timeout=900 fns=sw_composite::over_in
+// @+ desc="over_in(s,d,30) keeps r,g,b <= a for all premultiplied s,d (one of the 256 coverage values; all 256 together are the complete statement)"
+pm_over_in_at!(k_pm_over_in_030, 30);
+// @ob id=K.pm_over_in_031 props=C18 kind=complete tier=thorough timeout=900 fns=sw_composite::over_in
+// @+ desc="over_in(s,d,31) keeps r,g,b <= a for all premultiplied s,d (one of the 256 coverage values; all 256 together are the complete statement)"
+pm_over_in_at!(k_pm_over_in_031, 31);
+// @ob id=K.pm_over_in_032 props=C18 kind=complete tier=thorough timeout=900 fns=sw_composite::over_in
+// @+ desc="over_in(s,d,32) keeps r,g,b <= a for all premultiplied s,d (one of the 256 coverage values; all 256 together are the complete statement)"
+pm_over_in_at!(k_pm_over_in_032, 32);
+// @ob id=K.pm_over_in_033 props=C18 kind=complete tier=thorough timeout=900 fns=sw_composite::over_in
+// @+ desc="over_in(s,d,33) keeps r,g,b <= a for all premultiplied s,d (one of the 256 coverage values; all 256 together are the complete statement)"
+pm_over_in_at!(k_pm_over_in_033, 33);
+// @ob id=K.pm_over_in_034 props=C18 kind=complete tier=thorough timeout=900 fns=sw_composite::over_in
+// @+ desc="over_in(s,d,34) keeps r,g,b <= a for all premultiplied s,d (one of the 256 coverage values; all 256 together are the complete statement)"
+pm_over_in_at!(k_pm_over_in_034, 34);
+// @ob id=K.pm_over_in_035 props=C18 kind=complete tier=thorough timeout=900 fns=sw_composite::over_in
+// @+ desc="over_in(s,d,35) keeps r,g,b <= a for all premultiplied s,d (one of the 256 coverage values; all 256 together are the complete statement)"
+pm_over_in_at!(k_pm_over_in_035, 35);
+// @ob id=K.pm_over_in_036 props=C18 kind=complete tier=thorough timeout=900 fns=sw_composite::over_in
+// @+ desc="over_in(s,d,36) keeps r,g,b <= a for all premultiplied s,d (one of the 256 coverage values; all 256 together are the complete statement)"
+pm_over_in_at!(k_pm_over_in_036, 36);
+// @ob id=K.pm_over_in_037 props=C18 kind=complete tier=thorough timeout=900 fns=sw_composite::over_in
+// @+ desc="over_in(s,d,37) keeps r,g,b <= a for all premultiplied s,d (one of the 256 coverage values; all 256 together are the complete statement)"
+pm_over_in_at!(k_pm_over_in_037, 37);
+// @ob id=K.pm_over_in_038 props=C18 kind=complete tier=thorough timeout=900 fns=sw_composite::over_in
+// @+ desc="over_in(s,d,38) keeps r,g,b <= a for all premultiplied s,d (one of the 256 coverage values; all 256 together are the complete statement)"
+pm_over_in_at!(k_pm_over_in_038, 38);
+// @ob id=K.pm_over_in_039 props=C18 kind=complete tier=thorough timeout=900 fns=sw_composite::over_in
+// @+ desc="over_in(s,d,39) keeps r,g,b <= a for all premultiplied s,d (one of the 256 coverage values; all 256 together are the complete statement)"
+pm_over_in_at!(k_pm_over_in_039, 39);
+// @ob id=K.pm_over_in_040 props=C18 kind=complete tier=thorough timeout=900 fns=sw_composite::over_in
+// @+ desc="over_in(s,d,40) keeps r,g,b <= a for all premultiplied s,d (one of the 256 coverage values; all 256 together are the complete statement)"
+pm_over_in_at!(k_pm_over_in_040, 40);
+// @ob id=K.pm_over_in_041 props=C18 kind=complete tier=thorough timeout=900 fns=sw_composite::over_in
+// @+ desc="over_in(s,d,41) keeps r,g,b <= a for all premultiplied s,d (one of the 256 coverage values; all 256 together are the complete statement)"
+pm_over_in_at!(k_pm_over_in_041, 41);
+// @ob id=K.pm_over_in_042 props=C18 kind=complete tier=thorough timeout=900 fns=sw_composite::over_in
+// @+ desc="over_in(s,d,42) keeps r,g,b <= a for all premultiplied s,d (one of the 256 coverage values; all 256 together are the complete statement)"
+pm_over_in_at!(k_pm_over_in_042, 42);
+// @ob id=K.pm_over_in_043 props=C18 kind=complete tier=thorough timeout=900 fns=sw_composite::over_in
+// @+ desc="over_in(s,d,43) keeps r,g,b <= a for all premultiplied s,d (one of the 256 coverage values; all 256 together are the complete statement)"
+pm_over_in_at!(k_pm_over_in_043, 43);
+// @ob id=K.pm_over_in_044 props=C18 kind=complete tier=thorough timeout=900 fns=sw_composite::over_in
+// @+ desc="over_in(s,d,44) keeps r,g,b <= a for all premultiplied s,d (one of the 256 coverage values; all 256 together are the complete statement)"
+pm_over_in_at!(k_pm_over_in_044, 44);
+// @ob id=K.pm_over_in_045 props=C18 kind=complete tier=thorough timeout=900 fns=sw_composite::over_in
+// @+ desc="over_in(s,d,45) keeps r,g,b <= a for all premultiplied s,d (one of the 256 coverage values; all 256 together are the complete statement)"
+pm_over_in_at!(k_pm_over_in_045, 45);
+// @ob id=K.pm_over_in_046 props=C18 kind=complete tier=thorough timeout=900 fns=sw_composite::over_in
+// @+ desc="over_in(s,d,46) keeps r,g,b <= a for all premultiplied s,d (one of the 256 coverage values; all 256 together are the complete statement)"
+pm_over_in_at!(k_pm_over_in_046, 46);
+// @ob id=K.pm_over_in_047 props=C18 kind=complete tier=thorough timeout=900 fns=sw_composite::over_in
+// @+ desc="over_in(s,d,47) keeps r,g,b <= a for all premultiplied s,d (one of the 256 coverage values; all 256 together are the complete statement)"
+pm_over_in_at!(k_pm_over_in_047, 47);
+// @ob id=K.pm_over_in_048 props=C18 kind=complete tier=thorough timeout=900 fns=sw_composite::over_in
+// @+ desc="over_in(s,d,48) keeps r,g,b <= a for all premultiplied s,d (one of the 256 coverage values; all 256 together are the complete statement)"
+pm_over_in_at!(k_pm_over_in_048, 48);
+// @ob id=K.pm_over_in_049 props=C18 kind=complete tier=thorough timeout=900 fns=sw_composite::over_in
+// @+ desc="over_in(s,d,49) keeps r,g,b <= a for all premultiplied s,d (one of the 256 coverage values; all 256 together are the complete statement)"
+pm_over_in_at!(k_pm_over_in_049, 49);
+// @ob id=K.pm_over_in_050 props=C18 kind=complete tier=thorough timeout=900 fns=sw_composite::over_in
+// @+ desc="over_in(s,d,50) keeps r,g,b <= a for all premultiplied s,d (one of the 256 coverage values; all 256 together are the complete statement)"
+pm_over_in_at!(k_pm_over_in_050, 50);
+// @ob id=K.pm_over_in_051 props=C18 kind=complete tier=thorough timeout=900 fns=sw_composite::over_in
+// @+ desc="over_in(s,d,51) keeps r,g,b <= a for all premultiplied s,d (one of the 256 coverage values; all 256 together are the complete statement)"
+pm_over_in_at!(k_pm_over_in_051, 51);
+// @ob id=K.pm_over_in_052 props=C18 kind=complete tier=thorough timeout=900 fns=sw_composite::over_in
+// @+ desc="over_in(s,d,52) keeps r,g,b <= a for all premultiplied s,d (one of the 256 coverage values; all 256 together are the complete statement)"
+pm_over_in_at!(k_pm_over_in_052, 52);
+// @ob id=K.pm_over_in_053 props=C18 kind=complete tier=thorough timeout=900 fns=sw_composite::over_in
+// @+ desc="over_in(s,d,53) keeps r,g,b <= a for all premultiplied s,d (one of the 256 coverage values; all 256 together are the complete statement)"
+pm_over_in_at!(k_pm_over_in_053, 53);
+// @ob id=K.pm_over_in_054 props=C18 kind=complete tier=thorough timeout=900 fns=sw_composite::over_in
+// @+ desc="over_in(s,d,54) keeps r,g,b <= a for all premultiplied s,d (one of the 256 coverage values; all 256 together are the complete statement)"
+pm_over_in_at!(k_pm_over_in_054, 54);
+// @ob id=K.pm_over_in_055 props=C18 kind=complete tier=thorough timeout=900 fns=sw_composite::over_in
+// @+ desc="over_in(s,d,55) keeps r,g,b <= a for all premultiplied s,d (one of the 256 coverage values; all 256 together are the complete statement)"
+pm_over_in_at!(k_pm_over_in_055, 55);
+// @ob id=K.pm_over_in_056 props=C18 kind=complete tier=thorough timeout=900 fns=sw_composite::over_in
+// @+ desc="over_in(s,d,56) keeps r,g,b <= a for all premultiplied s,d (one of the 256 coverage values; all 256 together are the complete statement)"
+pm_over_in_at!(k_pm_over_in_056, 56);
+// @ob id=K.pm_over_in_057 props=C18 kind=complete tier=thorough timeout=900 fns=sw_composite::over_in
+// @+ desc="over_in(s,d,57) keeps r,g,b <= a for all premultiplied s,d (one of the 256 coverage values; all 256 together are the complete statement)"
+pm_over_in_at!(k_pm_over_in_057, 57);
+// @ob id=K.pm_over_in_058 props=C18 kind=complete tier=thorough timeout=900 fns=sw_composite::over_in
+// @+ desc="over_in(s,d,58) keeps r,g,b <= a for all premultiplied s,d (one of the 256 coverage values; all 256 together are the complete statement)"
+pm_over_in_at!(k_pm_over_in_058, 58);
+// @ob id=K.pm_over_in_059 props=C18 kind=complete tier=thorough timeout=900 fns=sw_composite::over_in
+// @+ desc="over_in(s,d,59) keeps r,g,b <= a for all premultiplied s,d (one of the 256 coverage values; all 256 together are the complete statement)"
+pm_over_in_at!(k_pm_over_in_059, 59);
+// @ob id=K.pm_over_in_060 props=C18 kind=complete tier=thorough timeout=900 fns=sw_composite::over_in
+// @+ desc="over_in(s,d,60) keeps r,g,b <= a for all premultiplied s,d (one of the 256 coverage values; all 256 together are the complete statement)"
+pm_over_in_at!(k_pm_over_in_060, 60);
+// @ob id=K.pm_over_in_061 props=C18 kind=complete tier=thorough timeout=900 fns=sw_composite::over_in
+// @+ desc="over_in(s,d,61) keeps r,g,b <= a for all premultiplied s,d (one of the 256 coverage values; all 256 together are the complete statement)"
+pm_over_in_at!(k_pm_over_in_061, 61);
+// @ob id=K.pm_over_in_062 props=C18 kind=complete tier=thorough timeout=900 fns=sw_composite::over_in
+// @+ desc="over_in(s,d,62) keeps r,g,b <= a for all premultiplied s,d (one of the 256 coverage values; all 256 together are the complete statement)"
+pm_over_in_at!(k_pm_over_in_062, 62);
+// @ob id=K.pm_over_in_063 props=C18 kind=complete tier=thorough timeout=900 fns=sw_composite::over_in
+// @+ desc="over_in(s,d,63) keeps r,g,b <= a for all premultiplied s,d (one of the 256 coverage values; all 256 together are the complete statement)"
+pm_over_in_at!(k_pm_over_in_063, 63);
+// @ob id=K.pm_over_in_064 props=C18 kind=complete tier=thorough timeout=900 fns=sw_composite::over_in
+// @+ desc="over_in(s,d,64) keeps r,g,b <= a for all premultiplied s,d (one of the 256 coverage values; all 256 together are the complete statement)"
+pm_over_in_at!(k_pm_over_in_064, 64);
+// @ob id=K.pm_over_in_065 props=C18 kind=complete tier=thorough timeout=900 fns=sw_composite::over_in
+// @+ desc="over_in(s,d,65) keeps r,g,b <= a for all premultiplied s,d (one of the 256 coverage values; all 256 together are the complete statement)"
+pm_over_in_at!(k_pm_over_in_065, 65);
+// @ob id=K.pm_over_in_066 props=C18 kind=complete tier=thorough timeout=900 fns=sw_composite::over_in
+// @+ desc="over_in(s,d,66) keeps r,g,b <= a for all premultiplied s,d (one of the 256 coverage values; all 256 together are the complete statement)"
+pm_over_in_at!(k_pm_over_in_066, 66);
+// @ob id=K.pm_over_in_067 props=C18 kind=complete tier=thorough timeout=900 fns=sw_composite::over_in
+// @+ desc="over_in(s,d,67) keeps r,g,b <= a for all premultiplied s,d (one of the 256 coverage values; all 256 together are the complete statement)"
+pm_over_in_at!(k_pm_over_in_067, 67);
+// @ob id=K.pm_over_in_068 props=C18 kind=complete tier=thorough timeout=900 fns=sw_composite::over_in
+// @+ desc="over_in(s,d,68) keeps r,g,b <= a for all premultiplied s,d (one of the 256 coverage values; all 256 together are the complete statement)"
+pm_over_in_at!(k_pm_over_in_068, 68);
+// @ob id=K.pm_over_in_069 props=C18 kind=complete tier=thorough timeout=900 fns=sw_composite::over_in
+// @+ desc="over_in(s,d,69) keeps r,g,b <= a for all premultiplied s,d (one of the 256 coverage values; all 256 together are the complete statement)"
+pm_over_in_at!(k_pm_over_in_069, 69);
+// @ob id=K.pm_over_in_070 props=C18 kind=complete tier=thorough timeout=900 fns=sw_composite::over_in
+// @+ desc="over_in(s,d,70) keeps r,g,b <= a for all premultiplied s,d (one of the 256 coverage values; all 256 together are the complete statement)"
+pm_over_in_at!(k_pm_over_in_070, 70);
+// @ob id=K.pm_over_in_071 props=C18 kind=complete tier=thorough timeout=900 fns=sw_composite::over_in
+// @+ desc="over_in(s,d,71) keeps r,g,b <= a for all premultiplied s,d (one of the 256 coverage values; all 256 together are the complete statement)"
+pm_over_in_at!(k_pm_over_in_071, 71);
+// @ob id=K.pm_over_in_072 props=C18 kind=complete tier=thorough timeout=900 fns=sw_composite::over_in
+// @+ desc="over_in(s,d,72) keeps r,g,b <= a for all premultiplied s,d (one of the 256 coverage values; all 256 together are the complete statement)"
+pm_over_in_at!(k_pm_over_in_072, 72);
+// @ob id=K.pm_over_in_073 props=C18 kind=complete tier=thorough timeout=900 fns=sw_composite::over_in
+// @+ desc="over_in(s,d,73) keeps r,g,b <= a for all premultiplied s,d (one of the 256 coverage values; all 256 together are the complete statement)"
+pm_over_in_at!(k_pm_over_in_073, 73);
+// @ob id=K.pm_over_in_074 props=C18 kind=complete tier=thorough timeout=900 fns=sw_composite::over_in
+// @+ desc="over_in(s,d,74) keeps r,g,b <= a for all premultiplied s,d (one of the 256 coverage values; all 256 together are the complete statement)"
+pm_over_in_at!(k_pm_over_in_074, 74);
+// @ob id=K.pm_over_in_075 props=C18 kind=complete tier=thorough timeout=900 fns=sw_composite::over_in
+// @+ desc="over_in(s,d,75) keeps r,g,b <= a for all premultiplied s,d (one of the 256 coverage values; all 256 together are the complete statement)"
+pm_over_in_at!(k_pm_over_in_075, 75);
+// @ob id=K.pm_over_in_076 props=C18 kind=complete tier=thorough timeout=900 fns=sw_composite::over_in
+// @+ desc="over_in(s,d,76) keeps r,g,b <= a for all premultiplied s,d (one of the 256 coverage values; all 256 together are the complete statement)"
+pm_over_in_at!(k_pm_over_in_076, 76);
+// @ob id=K.pm_over_in_077 props=C18 kind=complete tier=thorough timeout=900 fns=sw_composite::over_in
+// @+ desc="over_in(s,d,77) keeps r,g,b <= a for all premultiplied s,d (one of the 256 coverage values; all 256 together are the complete statement)"
+pm_over_in_at!(k_pm_over_in_077, 77);
+// @ob id=K.pm_over_in_078 props=C18 kind=complete tier=thorough timeout=900 fns=sw_composite::over_in
+// @+ desc="over_in(s,d,78) keeps r,g,b <= a for all premultiplied s,d (one of the 256 coverage values; all 256 together are the complete statement)"
+pm_over_in_at!(k_pm_over_in_078, 78);
+// @ob id=K.pm_over_in_079 props=C18 kind=complete tier=thorough timeout=900 fns=sw_composite::over_in
+// @+ desc="over_in(s,d,79) keeps r,g,b <= a for all premultiplied s,d (one of the 256 coverage values; all 256 together are the complete statement)"
+pm_over_in_at!(k_pm_over_in_079, 79);
+// @ob id=K.pm_over_in_080 props=C18 kind=complete tier=thorough timeout=900 fns=sw_composite::over_in
+// @+ desc="over_in(s,d,80) keeps r,g,b <= a for all premultiplied s,d (one of the 256 coverage values; all 256 together are the complete statement)"
+pm_over_in_at!(k_pm_over_in_080, 80);
+// @ob id=K.pm_over_in_081 props=C18 kind=complete tier=thorough timeout=900 fns=sw_composite::over_in
+// @+ desc="over_in(s,d,81) keeps r,g,b <= a for all premultiplied s,d (one of the 256 coverage values; all 256 together are the complete statement)"
+pm_over_in_at!(k_pm_over_in_081, 81);
+// @ob id=K.pm_over_in_082 props=C18 kind=complete tier=thorough timeout=900 fns=sw_composite::over_in
+// @+ desc="over_in(s,d,82) keeps r,g,b <= a for all premultiplied s,d (one of the 256 coverage values; all 256 together are the complete statement)"
+pm_over_in_at!(k_pm_over_in_082, 82);
+// @ob id=K.pm_over_in_083 props=C18 kind=complete tier=thorough timeout=900 fns=sw_composite::over_in
+// @+ desc="over_in(s,d,83) keeps r,g,b <= a for all premultiplied s,d (one of the 256 coverage values; all 256 together are the complete statement)"
+pm_over_in_at!(k_pm_over_in_083, 83);
+// @ob id=K.pm_over_in_084 props=C18 kind=complete tier=thorough timeout=900 fns=sw_composite::over_in
+// @+ desc="over_in(s,d,84) keeps r,g,b <= a for all premultiplied s,d (one of the 256 coverage values; all 256 together are the complete statement)"
+pm_over_in_at!(k_pm_over_in_084, 84);
+// @ob id=K.pm_over_in_085 props=C18 kind=complete tier=thorough timeout=900 fns=sw_composite::over_in
+// @+ desc="over_in(s,d,85) keeps r,g,b <= a for all premultiplied s,d (one of the 256 coverage values; all 256 together are the complete statement)"
+pm_over_in_at!(k_pm_over_in_085, 85);
+// @ob id=K.pm_over_in_086 props=C18 kind=complete tier=thorough timeout=900 fns=sw_composite::over_in
+// @+ desc="over_in(s,d,86) keeps r,g,b <= a for all premultiplied s,d (one of the 256 coverage values; all 256 together are the complete statement)"
+pm_over_in_at!(k_pm_over_in_086, 86);
+// @ob id=K.pm_over_in_087 props=C18 kind=complete tier=thorough timeout=900 fns=sw_composite::over_in
+// @+ desc="over_in(s,d,87) keeps r,g,b <= a for all premultiplied s,d (one of the 256 coverage values; all 256 together are the complete statement)"
+pm_over_in_at!(k_pm_over_in_087, 87);
+// @ob id=K.pm_over_in_088 props=C18 kind=complete tier=thorough timeout=900 fns=sw_composite::over_in
+// @+ desc="over_in(s,d,88) keeps r,g,b <= a for all premultiplied s,d (one of the 256 coverage values; all 256 together are the complete statement)"
+pm_over_in_at!(k_pm_over_in_088, 88);
+// @ob id=K.pm_over_in_089 props=C18 kind=complete tier=thorough timeout=900 fns=sw_composite::over_in
+// @+ desc="over_in(s,d,89) keeps r,g,b <= a for all premultiplied s,d (one of the 256 coverage values; all 256 together are the complete statement)"
+pm_over_in_at!(k_pm_over_in_089, 89);
+// @ob id=K.pm_over_in_090 props=C18 kind=complete tier=thorough timeout=900 fns=sw_composite::over_in
+// @+ desc="over_in(s,d,90) keeps r,g,b <= a for all premultiplied s,d (one of the 256 coverage values; all 256 together are the complete statement)"
+pm_over_in_at!(k_pm_over_in_090, 90);
+// @ob id=K.pm_over_in_091 props=C18 kind=complete tier=thorough timeout=900 fns=sw_composite::over_in
+// @+ desc="over_in(s,d,91) keeps r,g,b <= a for all premultiplied s,d (one of the 256 coverage values; all 256 together are the complete statement)"
+pm_over_in_at!(k_pm_over_in_091, 91);
+// @ob id=K.pm_over_in_092 props=C18 kind=complete tier=thorough timeout=900 fns=sw_composite::over_in
+// @+ desc="over_in(s,d,92) keeps r,g,b <= a for all premultiplied s,d (one of the 256 coverage values; all 256 together are the complete statement)"
+pm_over_in_at!(k_pm_over_in_092, 92);
+// @ob id=K.pm_over_in_093 props=C18 kind=complete tier=thorough timeout=900 fns=sw_composite::over_in
+// @+ desc="over_in(s,d,93) keeps r,g,b <= a for all premultiplied s,d (one of the 256 coverage values; all 256 together are the complete statement)"
+pm_over_in_at!(k_pm_over_in_093, 93);
+// @ob id=K.pm_over_in_094 props=C18 kind=complete tier=thorough timeout=900 fns=sw_composite::over_in
+// @+ desc="over_in(s,d,94) keeps r,g,b <= a for all premultiplied s,d (one of the 256 coverage values; all 256 together are the complete statement)"
+pm_over_in_at!(k_pm_over_in_094, 94);
+// @ob id=K.pm_over_in_095 props=C18 kind=complete tier=thorough timeout=900 fns=sw_composite::over_in
+// @+ desc="over_in(s,d,95) keeps r,g,b <= a for all premultiplied s,d (one of the 256 coverage values; all 256 together are the complete statement)"
+pm_over_in_at!(k_pm_over_in_095, 95);
+// @ob id=K.pm_over_in_096 props=C18 kind=complete tier=thorough timeout=900 fns=sw_composite::over_in
+// @+ desc="over_in(s,d,96) keeps r,g,b <= a for all premultiplied s,d (one of the 256 coverage values; all 256 together are the complete statement)"
+pm_over_in_at!(k_pm_over_in_096, 96);
+// @ob id=K.pm_over_in_097 props=C18 kind=complete tier=thorough timeout=900 fns=sw_composite::over_in
+// @+ desc="over_in(s,d,97) keeps r,g,b <= a for all premultiplied s,d (one of the 256 coverage values; all 256 together are the complete statement)"
+pm_over_in_at!(k_pm_over_in_097, 97);
+// @ob id=K.pm_over_in_098 props=C18 kind=complete tier=thorough timeout=900 fns=sw_composite::over_in
+// @+ desc="over_in(s,d,98) keeps r,g,b <= a for all premultiplied s,d (one of the 256 coverage values; all 256 together are the complete statement)"
+pm_over_in_at!(k_pm_over_in_098, 98);
+// @ob id=K.pm_over_in_099 props=C18 kind=complete tier=thorough timeout=900 fns=sw_composite::over_in
+// @+ desc="over_in(s,d,99) keeps r,g,b <= a for all premultiplied s,d (one of the 256 coverage values; all 256 together are the complete statement)"
+pm_over_in_at!(k_pm_over_in_099, 99);
+// @ob id=K.pm_over_in_100 props=C18 kind=complete tier=thorough timeout=900 fns=sw_composite::over_in
+// @+ desc="over_in(s,d,100) keeps r,g,b <= a for all premultiplied s,d (one of the 256 coverage values; all 256 together are the complete statement)"
+pm_over_in_at!(k_pm_over_in_100, 100);
+// @ob id=K.pm_over_in_101 props=C18 kind=complete tier=thorough timeout=900 fns=sw_composite::over_in
+// @+ desc="over_in(s,d,101) keeps r,g,b <= a for all premultiplied s,d (one of the 256 coverage values; all 256 together are the complete statement)"
+pm_over_in_at!(k_pm_over_in_101, 101);
+// @ob id=K.pm_over_in_102 props=C18 kind=complete tier=thorough timeout=900 fns=sw_composite::over_in
+// @+ desc="over_in(s,d,102) keeps r,g,b <= a for all premultiplied s,d (one of the 256 coverage values; all 256 together are the complete statement)"
+pm_over_in_at!(k_pm_over_in_102, 102);
+// @ob id=K.pm_over_in_103 props=C18 kind=complete tier=thorough timeout=900 fns=sw_composite::over_in
+// @+ desc="over_in(s,d,103) keeps r,g,b <= a for all premultiplied s,d (one of the 256 coverage values; all 256 together are the complete statement)"
+pm_over_in_at!(k_pm_over_in_103, 103);
+// @ob id=K.pm_over_in_104 props=C18 kind=complete tier=thorough timeout=900 fns=sw_composite::over_in
+// @+ desc="over_in(s,d,104) keeps r,g,b <= a for all premultiplied s,d (one of the 256 coverage values; all 256 together are the complete statement)"
+pm_over_in_at!(k_pm_over_in_104, 104);
+// @ob id=K.pm_over_in_105 props=C18 kind=complete tier=thorough timeout=900 fns=sw_composite::over_in
+// @+ desc="over_in(s,d,105) keeps r,g,b <= a for all premultiplied s,d (one of the 256 coverage values; all 256 together are the complete statement)"
+pm_over_in_at!(k_pm_over_in_105, 105);
+// @ob id=K.pm_over_in_106 props=C18 kind=complete tier=thorough timeout=900 fns=sw_composite::over_in
+// @+ desc="over_in(s,d,106) keeps r,g,b <= a for all premultiplied s,d (one of the 256 coverage values; all 256 together are the complete statement)"
+pm_over_in_at!(k_pm_over_in_106, 106);
+// @ob id=K.pm_over_in_107 props=C18 kind=complete tier=thorough timeout=900 fns=sw_composite::over_in
+// @+ desc="over_in(s,d,107) keeps r,g,b <= a for all premultiplied s,d (one of the 256 coverage values; all 256 together are the complete statement)"
+pm_over_in_at!(k_pm_over_in_107, 107);
+// @ob id=K.pm_over_in_108 props=C18 kind=complete tier=thorough timeout=900 fns=sw_composite::over_in
+// @+ desc="over_in(s,d,108) keeps r,g,b <= a for all premultiplied s,d (one of the 256 coverage values; all 256 together are the complete statement)"
+pm_over_in_at!(k_pm_over_in_108, 108);
+// @ob id=K.pm_over_in_109 props=C18 kind=complete tier=thorough timeout=900 fns=sw_composite::over_in
+// @+ desc="over_in(s,d,109) keeps r,g,b <= a for all premultiplied s,d (one of the 256 coverage values; all 256 together are the complete statement)"
+pm_over_in_at!(k_pm_over_in_109, 109);
+// @ob id=K.pm_over_in_110 props=C18 kind=complete tier=thorough timeout=900 fns=sw_composite::over_in
+// @+ desc="over_in(s,d,110) keeps r,g,b <= a for all premultiplied s,d (one of the 256 coverage values; all 256 together are the complete statement)"
+pm_over_in_at!(k_pm_over_in_110, 110);
+// @ob id=K.pm_over_in_111 props=C18 kind=complete tier=thorough timeout=900 fns=sw_composite::over_in
+// @+ desc="over_in(s,d,111) keeps r,g,b <= a for all premultiplied s,d (one of the 256 coverage values; all 256 together are the complete statement)"
+pm_over_in_at!(k_pm_over_in_111, 111);
+// @ob id=K.pm_over_in_112 props=C18 kind=complete tier=thorough timeout=900 fns=sw_composite::over_in
+// @+ desc="over_in(s,d,112) keeps r,g,b <= a for all premultiplied s,d (one of the 256 coverage values; all 256 together are the complete statement)"
+pm_over_in_at!(k_pm_over_in_112, 112);
+// @ob id=K.pm_over_in_113 props=C18 kind=complete tier=thorough timeout=900 fns=sw_composite::over_in
+// @+ desc="over_in(s,d,113) keeps r,g,b <= a for all premultiplied s,d (one of the 256 coverage values; all 256 together are the complete statement)"
+pm_over_in_at!(k_pm_over_in_113, 113);
+// @ob id=K.pm_over_in_114 props=C18 kind=complete tier=thorough timeout=900 fns=sw_composite::over_in
+// @+ desc="over_in(s,d,114) keeps r,g,b <= a for all premultiplied s,d (one of the 256 coverage values; all 256 together are the complete statement)"
+pm_over_in_at!(k_pm_over_in_114, 114);
+// @ob id=K.pm_over_in_115 props=C18 kind=complete tier=thorough timeout=900 fns=sw_composite::over_in
+// @+ desc="over_in(s,d,115) keeps r,g,b <= a for all premultiplied s,d (one of the 256 coverage values; all 256 together are the complete statement)"
+pm_over_in_at!(k_pm_over_in_115, 115);
+// @ob id=K.pm_over_in_116 props=C18 kind=complete tier=thorough timeout=900 fns=sw_composite::over_in
+// @+ desc="over_in(s,d,116) keeps r,g,b <= a for all premultiplied s,d (one of the 256 coverage values; all 256 together are the complete statement)"
+pm_over_in_at!(k_pm_over_in_116, 116);
+// @ob id=K.pm_over_in_117 props=C18 kind=complete tier=thorough timeout=900 fns=sw_composite::over_in
+// @+ desc="over_in(s,d,117) keeps r,g,b <= a for all premultiplied s,d (one of the 256 coverage values; all 256 together are the complete statement)"
+pm_over_in_at!(k_pm_over_in_117, 117);
+// @ob id=K.pm_over_in_118 props=C18 kind=complete tier=thorough timeout=900 fns=sw_composite::over_in
+// @+ desc="over_in(s,d,118) keeps r,g,b <= a for all premultiplied s,d (one of the 256 coverage values; all 256 together are the complete statement)"
+pm_over_in_at!(k_pm_over_in_118, 118);
+// @ob id=K.pm_over_in_119 props=C18 kind=complete tier=thorough timeout=900 fns=sw_composite::over_in
+// @+ desc="over_in(s,d,119) keeps r,g,b <= a for all premultiplied s,d (one of the 256 coverage values; all 256 together are the complete statement)"
+pm_over_in_at!(k_pm_over_in_119, 119);
+// @ob id=K.pm_over_in_120 props=C18 kind=complete tier=thorough timeout=900 fns=sw_composite::over_in
+// @+ desc="over_in(s,d,120) keeps r,g,b <= a for all premultiplied s,d (one of the 256 coverage values; all 256 together are the complete statement)"
+pm_over_in_at!(k_pm_over_in_120, 120);
+// @ob id=K.pm_over_in_121 props=C18 kind=complete tier=thorough timeout=900 fns=sw_composite::over_in
+// @+ desc="over_in(s,d,121) keeps r,g,b <= a for all premultiplied s,d (one of the 256 coverage values; all 256 together are the complete statement)"
+pm_over_in_at!(k_pm_over_in_121, 121);
+// @ob id=K.pm_over_in_122 props=C18 kind=complete tier=thorough timeout=900 fns=sw_composite::over_in
+// @+ desc="over_in(s,d,122) keeps r,g,b <= a for all premultiplied s,d (one of the 256 coverage values; all 256 together are the complete statement)"
+pm_over_in_at!(k_pm_over_in_122, 122);
+// @ob id=K.pm_over_in_123 props=C18 kind=complete tier=thorough timeout=900 fns=sw_composite::over_in
+// @+ desc="over_in(s,d,123) keeps r,g,b <= a for all premultiplied s,d (one of the 256 coverage values; all 256 together are the complete statement)"
+pm_over_in_at!(k_pm_over_in_123, 123);
+// @ob id=K.pm_over_in_124 props=C18 kind=complete tier=thorough timeout=900 fns=sw_composite::over_in
+// @+ desc="over_in(s,d,124) keeps r,g,b <= a for all premultiplied s,d (one of the 256 coverage values; all 256 together are the complete statement)"
+pm_over_in_at!(k_pm_over_in_124, 124);
+// @ob id=K.pm_over_in_125 props=C18 kind=complete tier=thorough timeout=900 fns=sw_composite::over_in
+// @+ desc="over_in(s,d,125) keeps r,g,b <= a for all premultiplied s,d (one of the 256 coverage values; all 256 together are the complete statement)"
+pm_over_in_at!(k_pm_over_in_125, 125);
+// @ob id=K.pm_over_in_126 props=C18 kind=complete tier=thorough timeout=900 fns=sw_composite::over_in
+// @+ desc="over_in(s,d,126) keeps r,g,b <= a for all premultiplied s,d (one of the 256 coverage values; all 256 together are the complete statement)"
+pm_over_in_at!(k_pm_over_in_126, 126);
+// @ob id=K.pm_over_in_127 props=C18 kind=complete tier=quick timeout=900 fns=sw_composite::over_in
+// @+ desc="over_in(s,d,127) keeps r,g,b <= a for all premultiplied s,d (one of the 256 coverage values; all 256 together are the complete statement)"
+pm_over_in_at!(k_pm_over_in_127, 127);
+// @ob id=K.pm_over_in_128 props=C18 kind=complete tier=quick timeout=900 fns=sw_composite::over_in
+// @+ desc="over_in(s,d,128) keeps r,g,b <= a for all premultiplied s,d (one of the 256 coverage values; all 256 together are the complete statement)"
+pm_over_in_at!(k_pm_over_in_128, 128);
+// @ob id=K.pm_over_in_129 props=C18 kind=complete tier=thorough timeout=900 fns=sw_composite::over_in
+// @+ desc="over_in(s,d,129) keeps r,g,b <= a for all premultiplied s,d (one of the 256 coverage values; all 256 together are the complete statement)"
+pm_over_in_at!(k_pm_over_in_129, 129);
+// @ob id=K.pm_over_in_130 props=C18 kind=complete tier=thorough timeout=900 fns=sw_composite::over_in
+// @+ desc="over_in(s,d,130) keeps r,g,b <= a for all premultiplied s,d (one of the 256 coverage values; all 256 together are the complete statement)"
+pm_over_in_at!(k_pm_over_in_130, 130);
+// @ob id=K.pm_over_in_131 props=C18 kind=complete tier=thorough timeout=900 fns=sw_composite::over_in
+// @+ desc="over_in(s,d,131) keeps r,g,b <= a for all premultiplied s,d (one of the 256 coverage values; all 256 together are the complete statement)"
+pm_over_in_at!(k_pm_over_in_131, 131);
+// @ob id=K.pm_over_in_132 props=C18 kind=complete tier=thorough timeout=900 fns=sw_composite::over_in
+// @+ desc="over_in(s,d,132) keeps r,g,b <= a for all premultiplied s,d (one of the 256 coverage values; all 256 together are the complete statement)"
+pm_over_in_at!(k_pm_over_in_132, 132);
+// @ob id=K.pm_over_in_133 props=C18 kind=complete tier=thorough timeout=900 fns=sw_composite::over_in
+// @+ desc="over_in(s,d,133) keeps r,g,b <= a for all premultiplied s,d (one of the 256 coverage values; all 256 together are the complete statement)"
+pm_over_in_at!(k_pm_over_in_133, 133);
+// @ob id=K.pm_over_in_134 props=C18 kind=complete tier=thorough timeout=900 fns=sw_composite::over_in
+// @+ desc="over_in(s,d,134) keeps r,g,b <= a for all premultiplied s,d (one of the 256 coverage values; all 256 together are the complete statement)"
+pm_over_in_at!(k_pm_over_in_134, 134);
+// @ob id=K.pm_over_in_135 props=C18 kind=complete tier=thorough timeout=900 fns=sw_composite::over_in
+// @+ desc="over_in(s,d,135) keeps r,g,b <= a for all premultiplied s,d (one of the 256 coverage values; all 256 together are the complete statement)"
+pm_over_in_at!(k_pm_over_in_135, 135);
+// @ob id=K.pm_over_in_136 props=C18 kind=complete tier=thorough timeout=900 fns=sw_composite::over_in
+// @+ desc="over_in(s,d,136) keeps r,g,b <= a for all premultiplied s,d (one of the 256 coverage values; all 256 together are the complete statement)"
+pm_over_in_at!(k_pm_over_in_136, 136);
+// @ob id=K.pm_over_in_137 props=C18 kind=complete tier=thorough timeout=900 fns=sw_composite::over_in
+// @+ desc="over_in(s,d,137) keeps r,g,b <= a for all premultiplied s,d (one of the 256 coverage values; all 256 together are the complete statement)"
+pm_over_in_at!(k_pm_over_in_137, 137);
+// @ob id=K.pm_over_in_138 props=C18 kind=complete tier=thorough timeout=900 fns=sw_composite::over_in
+// @+ desc="over_in(s,d,138) keeps r,g,b <= a for all premultiplied s,d (one of the 256 coverage values; all 256 together are the complete statement)"
+pm_over_in_at!(k_pm_over_in_138, 138);
+// @ob id=K.pm_over_in_139 props=C18 kind=complete tier=thorough timeout=900 fns=sw_composite::over_in
+// @+ desc="over_in(s,d,139) keeps r,g,b <= a for all premultiplied s,d (one of the 256 coverage values; all 256 together are the complete statement)"
+pm_over_in_at!(k_pm_over_in_139, 139);
+// @ob id=K.pm_over_in_140 props=C18 kind=complete tier=thorough timeout=900 fns=sw_composite::over_in
+// @+ desc="over_in(s,d,140) keeps r,g,b <= a for all premultiplied s,d (one of the 256 coverage values; all 256 together are the complete statement)"
+pm_over_in_at!(k_pm_over_in_140, 140);
+// @ob id=K.pm_over_in_141 props=C18 kind=complete tier=thorough timeout=900 fns=sw_composite::over_in
+// @+ desc="over_in(s,d,141) keeps r,g,b <= a for all premultiplied s,d (one of the 256 coverage values; all 256 together are the complete statement)"
+pm_over_in_at!(k_pm_over_in_141, 141);
+// @ob id=K.pm_over_in_142 props=C18 kind=complete tier=thorough timeout=900 fns=sw_composite::over_in
+// @+ desc="over_in(s,d,142) keeps r,g,b <= a for all premultiplied s,d (one of the 256 coverage values; all 256 together are the complete statement)"
+pm_over_in_at!(k_pm_over_in_142, 142);
+// @ob id=K.pm_over_in_143 props=C18 kind=complete tier=thorough timeout=900 fns=sw_composite::over_in
+// @+ desc="over_in(s,d,143) keeps r,g,b <= a for all premultiplied s,d (one of the 256 coverage values; all 256 together are the complete statement)"
+pm_over_in_at!(k_pm_over_in_143, 143);
+// @ob id=K.pm_over_in_144 props=C18 kind=complete tier=thorough timeout=900 fns=sw_composite::over_in
+// @+ desc="over_in(s,d,144) keeps r,g,b <= a for all premultiplied s,d (one of the 256 coverage values; all 256 together are the complete statement)"
+pm_over_in_at!(k_pm_over_in_144, 144);
+// @ob id=K.pm_over_in_145 props=C18 kind=complete tier=thorough timeout=900 fns=sw_composite::over_in
+// @+ desc="over_in(s,d,145) keeps r,g,b <= a for all premultiplied s,d (one of the 256 coverage values; all 256 together are the complete statement)"
+pm_over_in_at!(k_pm_over_in_145, 145);
+// @ob id=K.pm_over_in_146 props=C18 kind=complete tier=thorough timeout=900 fns=sw_composite::over_in
+// @+ desc="over_in(s,d,146) keeps r,g,b <= a for all premultiplied s,d (one of the 256 coverage values; all 256 together are the complete statement)"
+pm_over_in_at!(k_pm_over_in_146, 146);
+// @ob id=K.pm_over_in_147 props=C18 kind=complete tier=thorough timeout=900 fns=sw_composite::over_in
+// @+ desc="over_in(s,d,147) keeps r,g,b <= a for all premultiplied s,d (one of the 256 coverage values; all 256 together are the complete statement)"
+pm_over_in_at!(k_pm_over_in_147, 147);
+// @ob id=K.pm_over_in_148 props=C18 kind=complete tier=thorough timeout=900 fns=sw_composite::over_in
+// @+ desc="over_in(s,d,148) keeps r,g,b <= a for all premultiplied s,d (one of the 256 coverage values; all 256 together are the complete statement)"
+pm_over_in_at!(k_pm_over_in_148, 148);
+// @ob id=K.pm_over_in_149 props=C18 kind=complete tier=thorough timeout=900 fns=sw_composite::over_in
+// @+ desc="over_in(s,d,149) keeps r,g,b <= a for all premultiplied s,d (one of the 256 coverage values; all 256 together are the complete statement)"
+pm_over_in_at!(k_pm_over_in_149, 149);
+// @ob id=K.pm_over_in_150 props=C18 kind=complete tier=thorough timeout=900 fns=sw_composite::over_in
+// @+ desc="over_in(s,d,150) keeps r,g,b <= a for all premultiplied s,d (one of the 256 coverage values; all 256 together are the complete statement)"
+pm_over_in_at!(k_pm_over_in_150, 150);
+// @ob id=K.pm_over_in_151 props=C18 kind=complete tier=thorough timeout=900 fns=sw_composite::over_in
+// @+ desc="over_in(s,d,151) keeps r,g,b <= a for all premultiplied s,d (one of the 256 coverage values; all 256 together are the complete statement)"
+pm_over_in_at!(k_pm_over_in_151, 151);
+// @ob id=K.pm_over_in_152 props=C18 kind=complete tier=thorough timeout=900 fns=sw_composite::over_in
+// @+ desc="over_in(s,d,152) keeps r,g,b <= a for all premultiplied s,d (one of the 256 coverage values; all 256 together are the complete statement)"
+pm_over_in_at!(k_pm_over_in_152, 152);
+// @ob id=K.pm_over_in_153 props=C18 kind=complete tier=thorough timeout=900 fns=sw_composite::over_in
+// @+ desc="over_in(s,d,153) keeps r,g,b <= a for all premultiplied s,d (one of the 256 coverage values; all 256 together are the complete statement)"
+pm_over_in_at!(k_pm_over_in_153, 153);
+// @ob id=K.pm_over_in_154 props=C18 kind=complete tier=thorough timeout=900 fns=sw_composite::over_in
+// @+ desc="over_in(s,d,154) keeps r,g,b <= a for all premultiplied s,d (one of the 256 coverage values; all 256 together are the complete statement)"
+pm_over_in_at!(k_pm_over_in_154, 154);
+// @ob id=K.pm_over_in_155 props=C18 kind=complete tier=thorough timeout=900 fns=sw_composite::over_in
+// @+ desc="over_in(s,d,155) keeps r,g,b <= a for all premultiplied s,d (one of the 256 coverage values; all 256 together are the complete statement)"
+pm_over_in_at!(k_pm_over_in_155, 155);
+// @ob id=K.pm_over_in_156 props=C18 kind=complete tier=thorough timeout=900 fns=sw_composite::over_in
+// @+ desc="over_in(s,d,156) keeps r,g,b <= a for all premultiplied s,d (one of the 256 coverage values; all 256 together are the complete statement)"
+pm_over_in_at!(k_pm_over_in_156, 156);
+// @ob id=K.pm_over_in_157 props=C18 kind=complete tier=thorough timeout=900 fns=sw_composite::over_in
+// @+ desc="over_in(s,d,157) keeps r,g,b <= a for all premultiplied s,d (one of the 256 coverage values; all 256 together are the complete statement)"
+pm_over_in_at!(k_pm_over_in_157, 157);
+// @ob id=K.pm_over_in_158 props=C18 kind=complete tier=thorough timeout=900 fns=sw_composite::over_in
+// @+ desc="over_in(s,d,158) keeps r,g,b <= a for all premultiplied s,d (one of the 256 coverage values; all 256 together are the complete statement)"
+pm_over_in_at!(k_pm_over_in_158, 158);
+// @ob id=K.pm_over_in_159 props=C18 kind=complete tier=thorough timeout=900 fns=sw_composite::over_in
+// @+ desc="over_in(s,d,159) keeps r,g,b <= a for all premultiplied s,d (one of the 256 coverage values; all 256 together are the complete statement)"
+pm_over_in_at!(k_pm_over_in_159, 159);
+// @ob id=K.pm_over_in_160 props=C18 kind=complete tier=thorough timeout=900 fns=sw_composite::over_in
+// @+ desc="over_in(s,d,160) keeps r,g,b <= a for all premultiplied s,d (one of the 256 coverage values; all 256 together are the complete statement)"
+pm_over_in_at!(k_pm_over_in_160, 160);
+// @ob id=K.pm_over_in_161 props=C18 kind=complete tier=thorough timeout=900 fns=sw_composite::over_in
+// @+ desc="over_in(s,d,161) keeps r,g,b <= a for all premultiplied s,d (one of the 256 coverage values; all 256 together are the complete statement)"
+pm_over_in_at!(k_pm_over_in_161, 161);
+// @ob id=K.pm_over_in_162 props=C18 kind=complete tier=thorough timeout=900 fns=sw_composite::over_in
+// @+ desc="over_in(s,d,162) keeps r,g,b <= a for all premultiplied s,d (one of the 256 coverage values; all 256 together are the complete statement)"
+pm_over_in_at!(k_pm_over_in_162, 162);
+// @ob id=K.pm_over_in_163 props=C18 kind=complete tier=thorough timeout=900 fns=sw_composite::over_in
+// @+ desc="over_in(s,d,163) keeps r,g,b <= a for all premultiplied s,d (one of the 256 coverage values; all 256 together are the complete statement)"
+pm_over_in_at!(k_pm_over_in_163, 163);
+// @ob id=K.pm_over_in_164 props=C18 kind=complete tier=thorough timeout=900 fns=sw_composite::over_in
+// @+ desc="over_in(s,d,164) keeps r,g,b <= a for all premultiplied s,d (one of the 256 coverage values; all 256 together are the complete statement)"
+pm_over_in_at!(k_pm_over_in_164, 164);
+// @ob id=K.pm_over_in_165 props=C18 kind=complete tier=thorough timeout=900 fns=sw_composite::over_in
+// @+ desc="over_in(s,d,165) keeps r,g,b <= a for all premultiplied s,d (one of the 256 coverage values; all 256 together are the complete statement)"
+pm_over_in_at!(k_pm_over_in_165, 165);
+// @ob id=K.pm_over_in_166 props=C18 kind=complete tier=thorough timeout=900 fns=sw_composite::over_in
+// @+ desc="over_in(s,d,166) keeps r,g,b <= a for all premultiplied s,d (one of the 256 coverage values; all 256 together are the complete statement)"
+pm_over_in_at!(k_pm_over_in_166, 166);
+// @ob id=K.pm_over_in_167 props=C18 kind=complete tier=thorough timeout=900 fns=sw_composite::over_in
+// @+ desc="over_in(s,d,167) keeps r,g,b <= a for all premultiplied s,d (one of the 256 coverage values; all 256 together are the complete statement)"
+pm_over_in_at!(k_pm_over_in_167, 167);
+// @ob id=K.pm_over_in_168 props=C18 kind=complete tier=thorough timeout=900 fns=sw_composite::over_in
+// @+ desc="over_in(s,d,168) keeps r,g,b <= a for all premultiplied s,d (one of the 256 coverage values; all 256 together are the complete statement)"
+pm_over_in_at!(k_pm_over_in_168, 168);
+// @ob id=K.pm_over_in_169 props=C18 kind=complete tier=thorough timeout=900 fns=sw_composite::over_in
+// @+ desc="over_in(s,d,169) keeps r,g,b <= a for all premultiplied s,d (one of the 256 coverage values; all 256 together are the complete statement)"
+pm_over_in_at!(k_pm_over_in_169, 169);
+// @ob id=K.pm_over_in_170 props=C18 kind=complete tier=thorough timeout=900 fns=sw_composite::over_in
+// @+ desc="over_in(s,d,170) keeps r,g,b <= a for all premultiplied s,d (one of the 256 coverage values; all 256 together are the complete statement)"
+pm_over_in_at!(k_pm_over_in_170, 170);
+// @ob id=K.pm_over_in_171 props=C18 kind=complete tier=thorough timeout=900 fns=sw_composite::over_in
+// @+ desc="over_in(s,d,171) keeps r,g,b <= a for all premultiplied s,d (one of the 256 coverage values; all 256 together are the complete statement)"
+pm_over_in_at!(k_pm_over_in_171, 171);
+// @ob id=K.pm_over_in_172 props=C18 kind=complete tier=thorough timeout=900 fns=sw_composite::over_in
+// @+ desc="over_in(s,d,172) keeps r,g,b <= a for all premultiplied s,d (one of the 256 coverage values; all 256 together are the complete statement)"
+pm_over_in_at!(k_pm_over_in_172, 172);
+// @ob id=K.pm_over_in_173 props=C18 kind=complete tier=thorough timeout=900 fns=sw_composite::over_in
+// @+ desc="over_in(s,d,173) keeps r,g,b <= a for all premultiplied s,d (one of the 256 coverage values; all 256 together are the complete statement)"
+pm_over_in_at!(k_pm_over_in_173, 173);
+// @ob id=K.pm_over_in_174 props=C18 kind=complete tier=thorough timeout=900 fns=sw_composite::over_in
+// @+ desc="over_in(s,d,174) keeps r,g,b <= a for all premultiplied s,d (one of the 256 coverage values; all 256 together are the complete statement)"
+pm_over_in_at!(k_pm_over_in_174, 174);
+// @ob id=K.pm_over_in_175 props=C18 kind=complete tier=thorough timeout=900 fns=sw_composite::over_in
+// @+ desc="over_in(s,d,175) keeps r,g,b <= a for all premultiplied s,d (one of the 256 coverage values; all 256 together are the complete statement)"
+pm_over_in_at!(k_pm_over_in_175, 175);
+// @ob id=K.pm_over_in_176 props=C18 kind=complete tier=thorough timeout=900 fns=sw_composite::over_in
+// @+ desc="over_in(s,d,176) keeps r,g,b <= a for all premultiplied s,d (one of the 256 coverage values; all 256 together are the complete statement)"
+pm_over_in_at!(k_pm_over_in_176, 176);
+// @ob id=K.pm_over_in_177 props=C18 kind=complete tier=thorough timeout=900 fns=sw_composite::over_in
+// @+ desc="over_in(s,d,177) keeps r,g,b <= a for all premultiplied s,d (one of the 256 coverage values; all 256 together are the complete statement)"
+pm_over_in_at!(k_pm_over_in_177, 177);
+// @ob id=K.pm_over_in_178 props=C18 kind=complete tier=thorough timeout=900 fns=sw_composite::over_in
+// @+ desc="over_in(s,d,178) keeps r,g,b <= a for all premultiplied s,d (one of the 256 coverage values; all 256 together are the complete statement)"
+pm_over_in_at!(k_pm_over_in_178, 178);
+// @ob id=K.pm_over_in_179 props=C18 kind=complete tier=thorough timeout=900 fns=sw_composite::over_in
+// @+ desc="over_in(s,d,179) keeps r,g,b <= a for all premultiplied s,d (one of the 256 coverage values; all 256 together are the complete statement)"
+pm_over_in_at!(k_pm_over_in_179, 179);
+// @ob id=K.pm_over_in_180 props=C18 kind=complete tier=thorough timeout=900 fns=sw_composite::over_in
+// @+ desc="over_in(s,d,180) keeps r,g,b <= a for all premultiplied s,d (one of the 256 coverage values; all 256 together are the complete statement)"
+pm_over_in_at!(k_pm_over_in_180, 180);
+// @ob id=K.pm_over_in_181 props=C18 kind=complete tier=thorough timeout=900 fns=sw_composite::over_in
+// @+ desc="over_in(s,d,181) keeps r,g,b <= a for all premultiplied s,d (one of the 256 coverage values; all 256 together are the complete statement)"
+pm_over_in_at!(k_pm_over_in_181, 181);
+// @ob id=K.pm_over_in_182 props=C18 kind=complete tier=thorough timeout=900 fns=sw_composite::over_in
+// @+ desc="over_in(s,d,182) keeps r,g,b <= a for all premultiplied s,d (one of the 256 coverage values; all 256 together are the complete statement)"
+pm_over_in_at!(k_pm_over_in_182, 182);
+// @ob id=K.pm_over_in_183 props=C18 kind=complete tier=thorough timeout=900 fns=sw_composite::over_in
+// @+ desc="over_in(s,d,183) keeps r,g,b <= a for all premultiplied s,d (one of the 256 coverage values; all 256 together are the complete statement)"
+pm_over_in_at!(k_pm_over_in_183, 183);
+// @ob id=K.pm_over_in_184 props=C18 kind=complete tier=thorough timeout=900 fns=sw_composite::over_in
+// @+ desc="over_in(s,d,184) keeps r,g,b <= a for all premultiplied s,d (one of the 256 coverage values; all 256 together are the complete statement)"
+pm_over_in_at!(k_pm_over_in_184, 184);
+// @ob id=K.pm_over_in_185 props=C18 kind=complete tier=thorough timeout=900 fns=sw_composite::over_in
+// @+ desc="over_in(s,d,185) keeps r,g,b <= a for all premultiplied s,d (one of the 256 coverage values; all 256 together are the complete statement)"
+pm_over_in_at!(k_pm_over_in_185, 185);
+// @ob id=K.pm_over_in_186 props=C18 kind=complete tier=thorough timeout=900 fns=sw_composite::over_in
+// @+ desc="over_in(s,d,186) keeps r,g,b <= a for all premultiplied s,d (one of the 256 coverage values; all 256 together are the complete statement)"
+pm_over_in_at!(k_pm_over_in_186, 186);
+// @ob id=K.pm_over_in_187 props=C18 kind=complete tier=thorough timeout=900 fns=sw_composite::over_in
+// @+ desc="over_in(s,d,187) keeps r,g,b <= a for all premultiplied s,d (one of the 256 coverage values; all 256 together are the complete statement)"
+pm_over_in_at!(k_pm_over_in_187, 187);
+// @ob id=K.pm_over_in_188 props=C18 kind=complete tier=thorough timeout=900 fns=sw_composite::over_in
+// @+ desc="over_in(s,d,188) keeps r,g,b <= a for all premultiplied s,d (one of the 256 coverage values; all 256 together are the complete statement)"
+pm_over_in_at!(k_pm_over_in_188, 188);
+// @ob id=K.pm_over_in_189 props=C18 kind=complete tier=thorough timeout=900 fns=sw_composite::over_in
+// @+ desc="over_in(s,d,189) keeps r,g,b <= a for all premultiplied s,d (one of the 256 coverage values; all 256 together are the complete statement)"
+pm_over_in_at!(k_pm_over_in_189, 189);
+// @ob id=K.pm_over_in_190 props=C18 kind=complete tier=thorough timeout=900 fns=sw_composite::over_in
+// @+ desc="over_in(s,d,190) keeps r,g,b <= a for all premultiplied s,d (one of the 256 coverage values; all 256 together are the complete statement)"
+pm_over_in_at!(k_pm_over_in_190, 190);
+// @ob id=K.pm_over_in_191 props=C18 kind=complete tier=thorough timeout=900 fns=sw_composite::over_in
+// @+ desc="over_in(s,d,191) keeps r,g,b <= a for all premultiplied s,d (one of the 256 coverage values; all 256 together are the complete statement)"
+pm_over_in_at!(k_pm_over_in_191, 191);
+// @ob id=K.pm_over_in_192 props=C18 kind=complete tier=thorough timeout=900 fns=sw_composite::over_in
+// @+ desc="over_in(s,d,192) keeps r,g,b <= a for all premultiplied s,d (one of the 256 coverage values; all 256 together are the complete statement)"
+pm_over_in_at!(k_pm_over_in_192, 192);
+// @ob id=K.pm_over_in_193 props=C18 kind=complete tier=thorough timeout=900 fns=sw_composite::over_in
+// @+ desc="over_in(s,d,193) keeps r,g,b <= a for all premultiplied s,d (one of the 256 coverage values; all 256 together are the complete statement)"
+pm_over_in_at!(k_pm_over_in_193, 193);
+// @ob id=K.pm_over_in_194 props=C18 kind=complete tier=thorough timeout=900 fns=sw_composite::over_in
+// @+ desc="over_in(s,d,194) keeps r,g,b <= a for all premultiplied s,d (one of the 256 coverage values; all 256 together are the complete statement)"
+pm_over_in_at!(k_pm_over_in_194, 194);
+// @ob id=K.pm_over_in_195 props=C18 kind=complete tier=thorough timeout=900 fns=sw_composite::over_in
+// @+ desc="over_in(s,d,195) keeps r,g,b <= a for all premultiplied s,d (one of the 256 coverage values; all 256 together are the complete statement)"
+pm_over_in_at!(k_pm_over_in_195, 195);
+// @ob id=K.pm_over_in_196 props=C18 kind=complete tier=thorough timeout=900 fns=sw_composite::over_in
+// @+ desc="over_in(s,d,196) keeps r,g,b <= a for all premultiplied s,d (one of the 256 coverage values; all 256 together are the complete statement)"
+pm_over_in_at!(k_pm_over_in_196, 196);
+// @ob id=K.pm_over_in_197 props=C18 kind=complete tier=thorough timeout=900 fns=sw_composite::over_in
+// @+ desc="over_in(s,d,197) keeps r,g,b <= a for all premultiplied s,d (one of the 256 coverage values; all 256 together are the complete statement)"
+pm_over_in_at!(k_pm_over_in_197, 197);
+// @ob id=K.pm_over_in_198 props=C18 kind=complete tier=thorough timeout=900 fns=sw_composite::over_in
+// @+ desc="over_in(s,d,198) keeps r,g,b <= a for all premultiplied s,d (one of the 256 coverage values; all 256 together are the complete statement)"
+pm_over_in_at!(k_pm_over_in_198, 198);
+// @ob id=K.pm_over_in_199 props=C18 kind=complete tier=thorough timeout=900 fns=sw_composite::over_in
+// @+ desc="over_in(s,d,199) keeps r,g,b <= a for all premultiplied s,d (one of the 256 coverage values; all 256 together are the complete statement)"
+pm_over_in_at!(k_pm_over_in_199, 199);
+// @ob id=K.pm_over_in_200 props=C18 kind=complete tier=thorough timeout=900 fns=sw_composite::over_in
+// @+ desc="over_in(s,d,200) keeps r,g,b <= a for all premultiplied s,d (one of the 256 coverage values; all 256 together are the complete statement)"
+pm_over_in_at!(k_pm_over_in_200, 200);
+// @ob id=K.pm_over_in_201 props=C18 kind=complete tier=thorough timeout=900 fns=sw_composite::over_in
+// @+ desc="over_in(s,d,201) keeps r,g,b <= a for all premultiplied s,d (one of the 256 coverage values; all 256 together are the complete statement)"
+pm_over_in_at!(k_pm_over_in_201, 201);
+// @ob id=K.pm_over_in_202 props=C18 kind=complete tier=thorough timeout=900 fns=sw_composite::over_in
+// @+ desc="over_in(s,d,202) keeps r,g,b <= a for all premultiplied s,d (one of the 256 coverage values; all 256 together are the complete statement)"
+pm_over_in_at!(k_pm_over_in_202, 202);
+// @ob id=K.pm_over_in_203 props=C18 kind=complete tier=thorough timeout=900 fns=sw_composite::over_in
+// @+ desc="over_in(s,d,203) keeps r,g,b <= a for all premultiplied s,d (one of the 256 coverage values; all 256 together are the complete statement)"
+pm_over_in_at!(k_pm_over_in_203, 203);
+// @ob id=K.pm_over_in_204 props=C18 kind=complete tier=thorough timeout=900 fns=sw_composite::over_in
+// @+ desc="over_in(s,d,204) keeps r,g,b <= a for all premultiplied s,d (one of the 256 coverage values; all 256 together are the complete statement)"
+pm_over_in_at!(k_pm_over_in_204, 204);
+// @ob id=K.pm_over_in_205 props=C18 kind=complete tier=thorough timeout=900 fns=sw_composite::over_in
+// @+ desc="over_in(s,d,205) keeps r,g,b <= a for all premultiplied s,d (one of the 256 coverage values; all 256 together are the complete statement)"
+pm_over_in_at!(k_pm_over_in_205, 205);
+// @ob id=K.pm_over_in_206 props=C18 kind=complete tier=thorough timeout=900 fns=sw_composite::over_in
+// @+ desc="over_in(s,d,206) keeps r,g,b <= a for all premultiplied s,d (one of the 256 coverage values; all 256 together are the complete statement)"
+pm_over_in_at!(k_pm_over_in_206, 206);
+// @ob id=K.pm_over_in_207 props=C18 kind=complete tier=thorough timeout=900 fns=sw_composite::over_in
+// @+ desc="over_in(s,d,207) keeps r,g,b <= a for all premultiplied s,d (one of the 256 coverage values; all 256 together are the complete statement)"
+pm_over_in_at!(k_pm_over_in_207, 207);
+// @ob id=K.pm_over_in_208 props=C18 kind=complete tier=thorough timeout=900 fns=sw_composite::over_in
+// @+ desc="over_in(s,d,208) keeps r,g,b <= a for all premultiplied s,d (one of the 256 coverage values; all 256 together are the complete statement)"
+pm_over_in_at!(k_pm_over_in_208, 208);
+// @ob id=K.pm_over_in_209 props=C18 kind=complete tier=thorough timeout=900 fns=sw_composite::over_in
+// @+ desc="over_in(s,d,209) keeps r,g,b <= a for all premultiplied s,d (one of the 256 coverage values; all 256 together are the complete statement)"
+pm_over_in_at!(k_pm_over_in_209, 209);
+// @ob id=K.pm_over_in_210 props=C18 kind=complete tier=thorough timeout=900 fns=sw_composite::over_in
+// @+ desc="over_in(s,d,210) keeps r,g,b <= a for all premultiplied s,d (one of the 256 coverage values; all 256 together are the complete statement)"
+pm_over_in_at!(k_pm_over_in_210, 210);
+// @ob id=K.pm_over_in_211 props=C18 kind=complete tier=thorough timeout=900 fns=sw_composite::over_in
+// @+ desc="over_in(s,d,211) keeps r,g,b <= a for all premultiplied s,d (one of the 256 coverage values; all 256 together are the complete statement)"
+pm_over_in_at!(k_pm_over_in_211, 211);
+// @ob id=K.pm_over_in_212 props=C18 kind=complete tier=thorough timeout=900 fns=sw_composite::over_in
+// @+ desc="over_in(s,d,212) keeps r,g,b <= a for all premultiplied s,d (one of the 256 coverage values; all 256 together are the complete statement)"
+pm_over_in_at!(k_pm_over_in_212, 212);
+// @ob id=K.pm_over_in_213 props=C18 kind=complete tier=thorough timeout=900 fns=sw_composite::over_in
+// @+ desc="over_in(s,d,213) keeps r,g,b <= a for all premultiplied s,d (one of the 256 coverage values; all 256 together are the complete statement)"
+pm_over_in_at!(k_pm_over_in_213, 213);
+// @ob id=K.pm_over_in_214 props=C18 kind=complete tier=thorough timeout=900 fns=sw_composite::over_in
+// @+ desc="over_in(s,d,214) keeps r,g,b <= a for all premultiplied s,d (one of the 256 coverage values; all 256 together are the complete statement)"
+pm_over_in_at!(k_pm_over_in_214, 214);
+// @ob id=K.pm_over_in_215 props=C18 kind=complete tier=thorough timeout=900 fns=sw_composite::over_in
+// @+ desc="over_in(s,d,215) keeps r,g,b <= a for all premultiplied s,d (one of the 256 coverage values; all 256 together are the complete statement)"
+pm_over_in_at!(k_pm_over_in_215, 215);
+// @ob id=K.pm_over_in_216 props=C18 kind=complete tier=thorough timeout=900 fns=sw_composite::over_in
+// @+ desc="over_in(s,d,216) keeps r,g,b <= a for all premultiplied s,d (one of the 256 coverage values; all 256 together are the complete statement)"
+pm_over_in_at!(k_pm_over_in_216, 216);
+// @ob id=K.pm_over_in_217 props=C18 kind=complete tier=thorough timeout=900 fns=sw_composite::over_in
+// @+ desc="over_in(s,d,217) keeps r,g,b <= a for all premultiplied s,d (one of the 256 coverage values; all 256 together are the complete statement)"
+pm_over_in_at!(k_pm_over_in_217, 217);
+// @ob id=K.pm_over_in_218 props=C18 kind=complete tier=thorough timeout=900 fns=sw_composite::over_in
+// @+ desc="over_in(s,d,218) keeps r,g,b <= a for all premultiplied s,d (one of the 256 coverage values; all 256 together are the complete statement)"
+pm_over_in_at!(k_pm_over_in_218, 218);
+// @ob id=K.pm_over_in_219 props=C18 kind=complete tier=thorough timeout=900 fns=sw_composite::over_in
+// @+ desc="over_in(s,d,219) keeps r,g,b <= a for all premultiplied s,d (one of the 256 coverage values; all 256 together are the complete statement)"
+pm_over_in_at!(k_pm_over_in_219, 219);
+// @ob id=K.pm_over_in_220 props=C18 kind=complete tier=thorough timeout=900 fns=sw_composite::over_in
+// @+ desc="over_in(s,d,220) keeps r,g,b <= a for all premultiplied s,d (one of the 256 coverage values; all 256 together are the complete statement)"
+pm_over_in_at!(k_pm_over_in_220, 220);
+// @ob id=K.pm_over_in_221 props=C18 kind=complete tier=thorough timeout=900 fns=sw_composite::over_in
+// @+ desc="over_in(s,d,221) keeps r,g,b <= a for all premultiplied s,d (one of the 256 coverage values; all 256 together are the complete statement)"
+pm_over_in_at!(k_pm_over_in_221, 221);
+// @ob id=K.pm_over_in_222 props=C18 kind=complete tier=thorough timeout=900 fns=sw_composite::over_in
+// @+ desc="over_in(s,d,222) keeps r,g,b <= a for all premultiplied s,d (one of the 256 coverage values; all 256 together are the complete statement)"
+pm_over_in_at!(k_pm_over_in_222, 222);
+// @ob id=K.pm_over_in_223 props=C18 kind=complete tier=thorough timeout=900 fns=sw_composite::over_in
+// @+ desc="over_in(s,d,223) keeps r,g,b <= a for all premultiplied s,d (one of the 256 coverage values; all 256 together are the complete statement)"
+pm_over_in_at!(k_pm_over_in_223, 223);
+// @ob id=K.pm_over_in_224 props=C18 kind=complete tier=thorough timeout=900 fns=sw_composite::over_in
+// @+ desc="over_in(s,d,224) keeps r,g,b <= a for all premultiplied s,d (one of the 256 coverage values; all 256 together are the complete statement)"
+pm_over_in_at!(k_pm_over_in_224, 224);
+// @ob id=K.pm_over_in_225 props=C18 kind=complete tier=thorough timeout=900 fns=sw_composite::over_in
+// @+ desc="over_in(s,d,225) keeps r,g,b <= a for all premultiplied s,d (one of the 256 coverage values; all 256 together are the complete statement)"
+pm_over_in_at!(k_pm_over_in_225, 225);
+// @ob id=K.pm_over_in_226 props=C18 kind=complete tier=thorough timeout=900 fns=sw_composite::over_in
+// @+ desc="over_in(s,d,226) keeps r,g,b <= a for all premultiplied s,d (one of the 256 coverage values; all 256 together are the complete statement)"
+pm_over_in_at!(k_pm_over_in_226, 226);
+// @ob id=K.pm_over_in_227 props=C18 kind=complete tier=thorough timeout=900 fns=sw_composite::over_in
+// @+ desc="over_in(s,d,227) keeps r,g,b <= a for all premultiplied s,d (one of the 256 coverage values; all 256 together are the complete statement)"
+pm_over_in_at!(k_pm_over_in_227, 227);
+// @ob id=K.pm_over_in_228 props=C18 kind=complete tier=thorough timeout=900 fns=sw_composite::over_in
+// @+ desc="over_in(s,d,228) keeps r,g,b <= a for all premultiplied s,d (one of the 256 coverage values; all 256 together are the complete statement)"
+pm_over_in_at!(k_pm_over_in_228, 228);
+// @ob id=K.pm_over_in_229 props=C18 kind=complete tier=thorough timeout=900 fns=sw_composite::over_in
+// @+ desc="over_in(s,d,229) keeps r,g,b <= a for all premultiplied s,d (one of the 256 coverage values; all 256 together are the complete statement)"
+pm_over_in_at!(k_pm_over_in_229, 229);
+// @ob id=K.pm_over_in_230 props=C18 kind=complete tier=thorough timeout=900 fns=sw_composite::over_in
+// @+ desc="over_in(s,d,230) keeps r,g,b <= a for all premultiplied s,d (one of the 256 coverage values; all 256 together are the complete statement)"
+pm_over_in_at!(k_pm_over_in_230, 230);
+// @ob id=K.pm_over_in_231 props=C18 kind=complete tier=thorough timeout=900 fns=sw_composite::over_in
+// @+ desc="over_in(s,d,231) keeps r,g,b <= a for all premultiplied s,d (one of the 256 coverage values; all 256 together are the complete statement)"
+pm_over_in_at!(k_pm_over_in_231, 231);
+// @ob id=K.pm_over_in_232 props=C18 kind=complete tier=thorough timeout=900 fns=sw_composite::over_in
+// @+ desc="over_in(s,d,232) keeps r,g,b <= a for all premultiplied s,d (one of the 256 coverage values; all 256 together are the complete statement)"
+pm_over_in_at!(k_pm_over_in_232, 232);
+// @ob id=K.pm_over_in_233 props=C18 kind=complete tier=thorough timeout=900 fns=sw_composite::over_in
+// @+ desc="over_in(s,d,233) keeps r,g,b <= a for all premultiplied s,d (one of the 256 coverage values; all 256 together are the complete statement)"
+pm_over_in_at!(k_pm_over_in_233, 233);
+// @ob id=K.pm_over_in_234 props=C18 kind=complete tier=thorough timeout=900 fns=sw_composite::over_in
+// @+ desc="over_in(s,d,234) keeps r,g,b <= a for all premultiplied s,d (one of the 256 coverage values; all 256 together are the complete statement)"
+pm_over_in_at!(k_pm_over_in_234, 234);
+// @ob id=K.pm_over_in_235 props=C18 kind=complete tier=thorough timeout=900 fns=sw_composite::over_in
+// @+ desc="over_in(s,d,235) keeps r,g,b <= a for all premultiplied s,d (one of the 256 coverage values; all 256 together are the complete statement)"
+pm_over_in_at!(k_pm_over_in_235, 235);
+// @ob id=K.pm_over_in_236 props=C18 kind=complete tier=thorough timeout=900 fns=sw_composite::over_in
+// @+ desc="over_in(s,d,236) keeps r,g,b <= a for all premultiplied s,d (one of the 256 coverage values; all 256 together are the complete statement)"
+pm_over_in_at!(k_pm_over_in_236, 236);
+// @ob id=K.pm_over_in_237 props=C18 kind=complete tier=thorough timeout=900 fns=sw_composite::over_in
+// @+ desc="over_in(s,d,237) keeps r,g,b <= a for all premultiplied s,d (one of the 256 coverage values; all 256 together are the complete statement)"
+pm_over_in_at!(k_pm_over_in_237, 237);
+// @ob id=K.pm_over_in_238 props=C18 kind=complete tier=thorough timeout=900 fns=sw_composite::over_in
+// @+ desc="over_in(s,d,238) keeps r,g,b <= a for all premultiplied s,d (one of the 256 coverage values; all 256 together are the complete statement)"
+pm_over_in_at!(k_pm_over_in_238, 238);
+// @ob id=K.pm_over_in_239 props=C18 kind=complete tier=thorough timeout=900 fns=sw_composite::over_in
+// @+ desc="over_in(s,d,239) keeps r,g,b <= a for all premultiplied s,d (one of the 256 coverage values; all 256 together are the complete statement)"
+pm_over_in_at!(k_pm_over_in_239, 239);
+// @ob id=K.pm_over_in_240 props=C18 kind=complete tier=thorough timeout=900 fns=sw_composite::over_in
+// @+ desc="over_in(s,d,240) keeps r,g,b <= a for all premultiplied s,d (one of the 256 coverage values; all 256 together are the complete statement)"
+pm_over_in_at!(k_pm_over_in_240, 240);
+// @ob id=K.pm_over_in_241 props=C18 kind=complete tier=thorough timeout=900 fns=sw_composite::over_in
+// @+ desc="over_in(s,d,241) keeps r,g,b <= a for all premultiplied s,d (one of the 256 coverage values; all 256 together are the complete statement)"
+pm_over_in_at!(k_pm_over_in_241, 241);
+// @ob id=K.pm_over_in_242 props=C18 kind=complete tier=thorough timeout=900 fns=sw_composite::over_in
+// @+ desc="over_in(s,d,242) keeps r,g,b <= a for all premultiplied s,d (one of the 256 coverage values; all 256 together are the complete statement)"
+pm_over_in_at!(k_pm_over_in_242, 242);
+// @ob id=K.pm_over_in_243 props=C18 kind=complete tier=thorough timeout=900 fns=sw_composite::over_in
+// @+ desc="over_in(s,d,243) keeps r,g,b <= a for all premultiplied s,d (one of the 256 coverage values; all 256 together are the complete statement)"
+pm_over_in_at!(k_pm_over_in_243, 243);
+// @ob id=K.pm_over_in_244 props=C18 kind=complete tier=thorough timeout=900 fns=sw_composite::over_in
+// @+ desc="over_in(s,d,244) keeps r,g,b <= a for all premultiplied s,d (one of the 256 coverage values; all 256 together are the complete statement)"
+pm_over_in_at!(k_pm_over_in_244, 244);
+// @ob id=K.pm_over_in_245 props=C18 kind=complete tier=thorough timeout=900 fns=sw_composite::over_in
+// @+ desc="over_in(s,d,245) keeps r,g,b <= a for all premultiplied s,d (one of the 256 coverage values; all 256 together are the complete statement)"
+pm_over_in_at!(k_pm_over_in_245, 245);
+// @ob id=K.pm_over_in_246 props=C18 kind=complete tier=thorough timeout=900 fns=sw_composite::over_in
+// @+ desc="over_in(s,d,246) keeps r,g,b <= a for all premultiplied s,d (one of the 256 coverage values; all 256 together are the complete statement)"
+pm_over_in_at!(k_pm_over_in_246, 246);
+// @ob id=K.pm_over_in_247 props=C18 kind=complete tier=thorough timeout=900 fns=sw_composite::over_in
+// @+ desc="over_in(s,d,247) keeps r,g,b <= a for all premultiplied s,d (one of the 256 coverage values; all 256 together are the complete statement)"
+pm_over_in_at!(k_pm_over_in_247, 247);
+// @ob id=K.pm_over_in_248 props=C18 kind=complete tier=thorough timeout=900 fns=sw_composite::over_in
+// @+ desc="over_in(s,d,248) keeps r,g,b <= a for all premultiplied s,d (one of the 256 coverage values; all 256 together are the complete statement)"
+pm_over_in_at!(k_pm_over_in_248, 248);
+// @ob id=K.pm_over_in_249 props=C18 kind=complete tier=thorough timeout=900 fns=sw_composite::over_in
+// @+ desc="over_in(s,d,249) keeps r,g,b <= a for all premultiplied s,d (one of the 256 coverage values; all 256 together are the complete statement)"
+pm_over_in_at!(k_pm_over_in_249, 249);
+// @ob id=K.pm_over_in_250 props=C18 kind=complete tier=thorough timeout=900 fns=sw_composite::over_in
+// @+ desc="over_in(s,d,250) keeps r,g,b <= a for all premultiplied s,d (one of the 256 coverage values; all 256 together are the complete statement)"
+pm_over_in_at!(k_pm_over_in_250, 250);
+// @ob id=K.pm_over_in_251 props=C18 kind=complete tier=thorough timeout=900 fns=sw_composite::over_in
+// @+ desc="over_in(s,d,251) keeps r,g,b <= a for all premultiplied s,d (one of the 256 coverage values; all 256 together are the complete statement)"
+pm_over_in_at!(k_pm_over_in_251, 251);
+// @ob id=K.pm_over_in_252 props=C18 kind=complete tier=thorough timeout=900 fns=sw_composite::over_in
+// @+ desc="over_in(s,d,252) keeps r,g,b <= a for all premultiplied s,d (one of the 256 coverage values; all 256 together are the complete statement)"
+pm_over_in_at!(k_pm_over_in_252, 252);
+// @ob id=K.pm_over_in_253 props=C18 kind=complete tier=thorough timeout=900 fns=sw_composite::over_in
+// @+ desc="over_in(s,d,253) keeps r,g,b <= a for all premultiplied s,d (one of the 256 coverage values; all 256 together are the complete statement)"
+pm_over_in_at!(k_pm_over_in_253, 253);
+// @ob id=K.pm_over_in_254 props=C18 kind=complete tier=quick timeout=900 fns=sw_composite::over_in
+// @+ desc="over_in(s,d,254) keeps r,g,b <= a for all premultiplied s,d (one of the 256 coverage values; all 256 together are the complete statement)"
+pm_over_in_at!(k_pm_over_in_254, 254);
+// @ob id=K.pm_over_in_255 props=C18 kind=complete tier=quick timeout=900 fns=sw_composite::over_in
+// @+ desc="over_in(s,d,255) keeps r,g,b <= a for all premultiplied s,d (one of the 256 coverage values; all 256 together are the complete statement)"
+pm_over_in_at!(k_pm_over_in_255, 255);
+// @ob id=K.pm_lerp_000 props=C18 kind=complete tier=thorough timeout=600 fns=sw_composite::lerp
+// @+ desc="lerp(d,b,0) keeps r,g,b <= a for all premultiplied d,b (one of the 257 weights)"
+pm_lerp_at!(k_pm_lerp_000, 0);
+// @ob id=K.pm_lerp_001 props=C18 kind=complete tier=quick timeout=600 fns=sw_composite::lerp
+// @+ desc="lerp(d,b,1) keeps r,g,b <= a for all premultiplied d,b (one of the 257 weights)"
+pm_lerp_at!(k_pm_lerp_001, 1);
+// @ob id=K.pm_lerp_002 props=C18 kind=complete tier=quick timeout=600 fns=sw_composite::lerp
+// @+ desc="lerp(d,b,2) keeps r,g,b <= a for all premultiplied d,b (one of the 257 weights)"
+pm_lerp_at!(k_pm_lerp_002, 2);
+// @ob id=K.pm_lerp_003 props=C18 kind=complete tier=thorough timeout=600 fns=sw_composite::lerp
+// @+ desc="lerp(d,b,3) keeps r,g,b <= a for all premultiplied d,b (one of the 257 weights)"
+pm_lerp_at!(k_pm_lerp_003, 3);
+// @ob id=K.pm_lerp_004 props=C18 kind=complete tier=thorough timeout=600 fns=sw_composite::lerp
+// @+ desc="lerp(d,b,4) keeps r,g,b <= a for all premultiplied d,b (one of the 257 weights)"
+pm_lerp_at!(k_pm_lerp_004, 4);
+// @ob id=K.pm_lerp_005 props=C18 kind=complete tier=thorough timeout=600 fns=sw_composite::lerp
+// @+ desc="lerp(d,b,5) keeps r,g,b <= a for all premultiplied d,b (one of the 257 weights)"
+pm_lerp_at!(k_pm_lerp_005, 5);
+// @ob id=K.pm_lerp_006 props=C18 kind=complete tier=thorough timeout=600 fns=sw_composite::lerp
+// @+ desc="lerp(d,b,6) keeps r,g,b <= a for all premultiplied d,b (one of the 257 weights)"
+pm_lerp_at!(k_pm_lerp_006, 6);
+// @ob id=K.pm_lerp_007 props=C18 kind=complete tier=thorough timeout=600 fns=sw_composite::lerp
+// @+ desc="lerp(d,b,7) keeps r,g,b <= a for all premultiplied d,b (one of the 257 weights)"
+pm_lerp_at!(k_pm_lerp_007, 7);
+// @ob id=K.pm_lerp_008 props=C18 kind=complete tier=thorough timeout=600 fns=sw_composite::lerp
+// @+ desc="lerp(d,b,8) keeps r,g,b <= a for all premultiplied d,b (one of the 257 weights)"
+pm_lerp_at!(k_pm_lerp_008, 8);
+// @ob id=K.pm_lerp_009 props=C18 kind=complete tier=thorough timeout=600 fns=sw_composite::lerp
+// @+ desc="lerp(d,b,9) keeps r,g,b <= a for all premultiplied d,b (one of the 257 weights)"
+pm_lerp_at!(k_pm_lerp_009, 9);
+// @ob id=K.pm_lerp_010 props=C18 kind=complete tier=thorough timeout=600 fns=sw_composite::lerp
+// @+ desc="lerp(d,b,10) keeps r,g,b <= a for all premultiplied d,b (one of the 257 weights)"
+pm_lerp_at!(k_pm_lerp_010, 10);
+// @ob id=K.pm_lerp_011 props=C18 kind=complete tier=thorough timeout=600 fns=sw_composite::lerp
+// @+ desc="lerp(d,b,11) keeps r,g,b <= a for all premultiplied d,b (one of the 257 weights)"
+pm_lerp_at!(k_pm_lerp_011, 11);
+// @ob id=K.pm_lerp_012 props=C18 kind=complete tier=thorough timeout=600 fns=sw_composite::lerp
+// @+ desc="lerp(d,b,12) keeps r,g,b <= a for all premultiplied d,b (one of the 257 weights)"
+pm_lerp_at!(k_pm_lerp_012, 12);
+// @ob id=K.pm_lerp_013 props=C18 kind=complete tier=thorough timeout=600 fns=sw_composite::lerp
+// @+ desc="lerp(d,b,13) keeps r,g,b <= a for all premultiplied d,b (one of the 257 weights)"
+pm_lerp_at!(k_pm_lerp_013, 13);
+// @ob id=K.pm_lerp_014 props=C18 kind=complete tier=thorough timeout=600 fns=sw_composite::lerp
+// @+ desc="lerp(d,b,14) keeps r,g,b <= a for all premultiplied d,b (one of the 257 weights)"
+pm_lerp_at!(k_pm_lerp_014, 14);
+// @ob id=K.pm_lerp_015 props=C18 kind=complete tier=thorough timeout=600 fns=sw_composite::lerp
+// @+ desc="lerp(d,b,15) keeps r,g,b <= a for all premultiplied d,b (one of the 257 weights)"
+pm_lerp_at!(k_pm_lerp_015, 15);
+// @ob id=K.pm_lerp_016 props=C18 kind=complete tier=thorough timeout=600 fns=sw_composite::lerp
+// @+ desc="lerp(d,b,16) keeps r,g,b <= a for all premultiplied d,b (one of the 257 weights)"
+pm_lerp_at!(k_pm_lerp_016, 16);
+// @ob id=K.pm_lerp_017 props=C18 kind=complete tier=thorough timeout=600 fns=sw_composite::lerp
+// @+ desc="lerp(d,b,17) keeps r,g,b <= a for all premultiplied d,b (one of the 257 weights)"
+pm_lerp_at!(k_pm_lerp_017, 17);
+// @ob id=K.pm_lerp_018 props=C18 kind=complete tier=thorough timeout=600 fns=sw_composite::lerp
+// @+ desc="lerp(d,b,18) keeps r,g,b <= a for all premultiplied d,b (one of the 257 weights)"
+pm_lerp_at!(k_pm_lerp_018, 18);
+// @ob id=K.pm_lerp_019 props=C18 kind=complete tier=thorough timeout=600 fns=sw_composite::lerp
+// @+ desc="lerp(d,b,19) keeps r,g,b <= a for all premultiplied d,b (one of the 257 weights)"
+pm_lerp_at!(k_pm_lerp_019, 19);
+// @ob id=K.pm_lerp_020 props=C18 kind=complete tier=thorough timeout=600 fns=sw_composite::lerp
+// @+ desc="lerp(d,b,20) keeps r,g,b <= a for all premultiplied d,b (one of the 257 weights)"
+pm_lerp_at!(k_pm_lerp_020, 20);
+// @ob id=K.pm_lerp_021 props=C18 kind=complete tier=thorough timeout=600 fns=sw_composite::lerp
+// @+ desc="lerp(d,b,21) keeps r,g,b <= a for all premultiplied d,b (one of the 257 weights)"
+pm_lerp_at!(k_pm_lerp_021, 21);
+// @ob id=K.pm_lerp_022 props=C18 kind=complete tier=thorough timeout=600 fns=sw_composite::lerp
+// @+ desc="lerp(d,b,22) keeps r,g,b <= a for all premultiplied d,b (one of the 257 weights)"
+pm_lerp_at!(k_pm_lerp_022, 22);
+// @ob id=K.pm_lerp_023 props=C18 kind=complete tier=thorough timeout=600 fns=sw_composite::lerp
+// @+ desc="lerp(d,b,23) keeps r,g,b <= a for all premultiplied d,b (one of the 257 weights)"
+pm_lerp_at!(k_pm_lerp_023, 23);
+// @ob id=K.pm_lerp_024 props=C18 kind=complete tier=thorough timeout=600 fns=sw_composite::lerp
+// @+ desc="lerp(d,b,24) keeps r,g,b <= a for all premultiplied d,b (one of the 257 weights)"
+pm_lerp_at!(k_pm_lerp_024, 24);
+// @ob id=K.pm_lerp_025 props=C18 kind=complete tier=thorough timeout=600 fns=sw_composite::lerp
+// @+ desc="lerp(d,b,25) keeps r,g,b <= a for all premultiplied d,b (one of the 257 weights)"
+pm_lerp_at!(k_pm_lerp_025, 25);
+// @ob id=K.pm_lerp_026 props=C18 kind=complete tier=thorough timeout=600 fns=sw_composite::lerp
+// @+ desc="lerp(d,b,26) keeps r,g,b <= a for all premultiplied d,b (one of the 257 weights)"
+pm_lerp_at!(k_pm_lerp_026, 26);
+// @ob id=K.pm_lerp_027 props=C18 kind=complete tier=thorough timeout=600 fns=sw_composite::lerp
+// @+ desc="lerp(d,b,27) keeps r,g,b <= a for all premultiplied d,b (one of the 257 weights)"
+pm_lerp_at!(k_pm_lerp_027, 27);
+// @ob id=K.pm_lerp_028 props=C18 kind=complete tier=thorough timeout=600 fns=sw_composite::lerp
+// @+ desc="lerp(d,b,28) keeps r,g,b <= a for all premultiplied d,b (one of the 257 weights)"
+pm_lerp_at!(k_pm_lerp_028, 28);
+// @ob id=K.pm_lerp_029 props=C18 kind=complete tier=thorough timeout=600 fns=sw_composite::lerp
+// @+ desc="lerp(d,b,29) keeps r,g,b <= a for all premultiplied d,b (one of the 257 weights)"
+pm_lerp_at!(k_pm_lerp_029, 29);
+// @ob id=K.pm_lerp_030 props=C18 kind=complete tier=thorough timeout=600 fns=sw_composite::lerp
+// @+ desc="lerp(d,b,30) keeps r,g,b <= a for all premultiplied d,b (one of the 257 weights)"
+pm_lerp_at!(k_pm_lerp_030, 30);
+// @ob id=K.pm_lerp_031 props=C18 kind=complete tier=thorough timeout=600 fns=sw_composite::lerp
+// @+ desc="lerp(d,b,31) keeps r,g,b <= a for all premultiplied d,b (one of the 257 weights)"
+pm_lerp_at!(k_pm_lerp_031, 31);
+// @ob id=K.pm_lerp_032 props=C18 kind=complete tier=thorough timeout=600 fns=sw_composite::lerp
+// @+ desc="lerp(d,b,32) keeps r,g,b <= a for all premultiplied d,b (one of the 257 weights)"
+pm_lerp_at!(k_pm_lerp_032, 32);
+// @ob id=K.pm_lerp_033 props=C18 kind=complete tier=thorough timeout=600 fns=sw_composite::lerp
+// @+ desc="lerp(d,b,33) keeps r,g,b <= a for all premultiplied d,b (one of the 257 weights)"
+pm_lerp_at!(k_pm_lerp_033, 33);
+// @ob id=K.pm_lerp_034 props=C18 kind=complete tier=thorough timeout=600 fns=sw_composite::lerp
+// @+ desc="lerp(d,b,34) keeps r,g,b <= a for all premultiplied d,b (one of the 257 weights)"
+pm_lerp_at!(k_pm_lerp_034, 34);
+// @ob id=K.pm_lerp_035 props=C18 kind=complete tier=thorough timeout=600 fns=sw_composite::lerp
+// @+ desc="lerp(d,b,35) keeps r,g,b <= a for all premultiplied d,b (one of the 257 weights)"
+pm_lerp_at!(k_pm_lerp_035, 35);
+// @ob id=K.pm_lerp_036 props=C18 kind=complete tier=thorough timeout=600 fns=sw_composite::lerp
+// @+ desc="lerp(d,b,36) keeps r,g,b <= a for all premultiplied d,b (one of the 257 weights)"
+pm_lerp_at!(k_pm_lerp_036, 36);
+// @ob id=K.pm_lerp_037 props=C18 kind=complete tier=thorough timeout=600 fns=sw_composite::lerp
+// @+ desc="lerp(d,b,37) keeps r,g,b <= a for all premultiplied d,b (one of the 257 weights)"
+pm_lerp_at!(k_pm_lerp_037, 37);
+// @ob id=K.pm_lerp_038 props=C18 kind=complete tier=thorough timeout=600 fns=sw_composite::lerp
+// @+ desc="lerp(d,b,38) keeps r,g,b <= a for all premultiplied d,b (one of the 257 weights)"
+pm_lerp_at!(k_pm_lerp_038, 38);
+// @ob id=K.pm_lerp_039 props=C18 kind=complete tier=thorough timeout=600 fns=sw_composite::lerp
+// @+ desc="lerp(d,b,39) keeps r,g,b <= a for all premultiplied d,b (one of the 257 weights)"
+pm_lerp_at!(k_pm_lerp_039, 39);
+// @ob id=K.pm_lerp_040 props=C18 kind=complete tier=thorough timeout=600 fns=sw_composite::lerp
+// @+ desc="lerp(d,b,40) keeps r,g,b <= a for all premultiplied d,b (one of the 257 weights)"
+pm_lerp_at!(k_pm_lerp_040, 40);
+// @ob id=K.pm_lerp_041 props=C18 kind=complete tier=thorough timeout=600 fns=sw_composite::lerp
+// @+ desc="lerp(d,b,41) keeps r,g,b <= a for all premultiplied d,b (one of the 257 weights)"
+pm_lerp_at!(k_pm_lerp_041, 41);
+// @ob id=K.pm_lerp_042 props=C18 kind=complete tier=thorough timeout=600 fns=sw_composite::lerp
+// @+ desc="lerp(d,b,42) keeps r,g,b <= a for all premultiplied d,b (one of the 257 weights)"
+pm_lerp_at!(k_pm_lerp_042, 42);
+// @ob id=K.pm_lerp_043 props=C18 kind=complete tier=thorough timeout=600 fns=sw_composite::lerp
+// @+ desc="lerp(d,b,43) keeps r,g,b <= a for all premultiplied d,b (one of the 257 weights)"
+pm_lerp_at!(k_pm_lerp_043, 43);
+// @ob id=K.pm_lerp_044 props=C18 kind=complete tier=thorough timeout=600 fns=sw_composite::lerp
+// @+ desc="lerp(d,b,44) keeps r,g,b <= a for all premultiplied d,b (one of the 257 weights)"
+pm_lerp_at!(k_pm_lerp_044, 44);
+// @ob id=K.pm_lerp_045 props=C18 kind=complete tier=thorough timeout=600 fns=sw_composite::lerp
+// @+ desc="lerp(d,b,45) keeps r,g,b <= a for all premultiplied d,b (one of the 257 weights)"
+pm_lerp_at!(k_pm_lerp_045, 45);
+// @ob id=K.pm_lerp_046 props=C18 kind=complete tier=thorough timeout=600 fns=sw_composite::lerp
+// @+ desc="lerp(d,b,46) keeps r,g,b <= a for all premultiplied d,b (one of the 257 weights)"
+pm_lerp_at!(k_pm_lerp_046, 46);
+// @ob id=K.pm_lerp_047 props=C18 kind=complete tier=thorough timeout=600 fns=sw_composite::lerp
+// @+ desc="lerp(d,b,47) keeps r,g,b <= a for all premultiplied d,b (one of the 257 weights)"
+pm_lerp_at!(k_pm_lerp_047, 47);
+// @ob id=K.pm_lerp_048 props=C18 kind=complete tier=thorough timeout=600 fns=sw_composite::lerp
+// @+ desc="lerp(d,b,48) keeps r,g,b <= a for all premultiplied d,b (one of the 257 weights)"
+pm_lerp_at!(k_pm_lerp_048, 48);
+// @ob id=K.pm_lerp_049 props=C18 kind=complete tier=thorough timeout=600 fns=sw_composite::lerp
+// @+ desc="lerp(d,b,49) keeps r,g,b <= a for all premultiplied d,b (one of the 257 weights)"
+pm_lerp_at!(k_pm_lerp_049, 49);
+// @ob id=K.pm_lerp_050 props=C18 kind=complete tier=thorough timeout=600 fns=sw_composite::lerp
+// @+ desc="lerp(d,b,50) keeps r,g,b <= a for all premultiplied d,b (one of the 257 weights)"
+pm_lerp_at!(k_pm_lerp_050, 50);
+// @ob id=K.pm_lerp_051 props=C18 kind=complete tier=thorough timeout=600 fns=sw_composite::lerp
+// @+ desc="lerp(d,b,51) keeps r,g,b <= a for all premultiplied d,b (one of the 257 weights)"
+pm_lerp_at!(k_pm_lerp_051, 51);
+// @ob id=K.pm_lerp_052 props=C18 kind=complete tier=thorough timeout=600 fns=sw_composite::lerp
+// @+ desc="lerp(d,b,52) keeps r,g,b <= a for all premultiplied d,b (one of the 257 weights)"
+pm_lerp_at!(k_pm_lerp_052, 52);
+// @ob id=K.pm_lerp_053 props=C18 kind=complete tier=thorough timeout=600 fns=sw_composite::lerp
+// @+ desc="lerp(d,b,53) keeps r,g,b <= a for all premultiplied d,b (one of the 257 weights)"
+pm_lerp_at!(k_pm_lerp_053, 53);
+// @ob id=K.pm_lerp_054 props=C18 kind=complete tier=thorough timeout=600 fns=sw_composite::lerp
+// @+ desc="lerp(d,b,54) keeps r,g,b <= a for all premultiplied d,b (one of the 257 weights)"
+pm_lerp_at!(k_pm_lerp_054, 54);
+// @ob id=K.pm_lerp_055 props=C18 kind=complete tier=thorough timeout=600 fns=sw_composite::lerp
+// @+ desc="lerp(d,b,55) keeps r,g,b <= a for all premultiplied d,b (one of the 257 weights)"
+pm_lerp_at!(k_pm_lerp_055, 55);
+// @ob id=K.pm_lerp_056 props=C18 kind=complete tier=thorough timeout=600 fns=sw_composite::lerp
+// @+ desc="lerp(d,b,56) keeps r,g,b <= a for all premultiplied d,b (one of the 257 weights)"
+pm_lerp_at!(k_pm_lerp_056, 56);
+// @ob id=K.pm_lerp_057 props=C18 kind=complete tier=thorough timeout=600 fns=sw_composite::lerp
+// @+ desc="lerp(d,b,57) keeps r,g,b <= a for all premultiplied d,b (one of the 257 weights)"
+pm_lerp_at!(k_pm_lerp_057, 57);
+// @ob id=K.pm_lerp_058 props=C18 kind=complete tier=thorough timeout=600 fns=sw_composite::lerp
+// @+ desc="lerp(d,b,58) keeps r,g,b <= a for all premultiplied d,b (one of the 257 weights)"
+pm_lerp_at!(k_pm_lerp_058, 58);
+// @ob id=K.pm_lerp_059 props=C18 kind=complete tier=thorough timeout=600 fns=sw_composite::lerp
+// @+ desc="lerp(d,b,59) keeps r,g,b <= a for all premultiplied d,b (one of the 257 weights)"
+pm_lerp_at!(k_pm_lerp_059, 59);
+// @ob id=K.pm_lerp_060 props=C18 kind=complete tier=thorough timeout=600 fns=sw_composite::lerp
+// @+ desc="lerp(d,b,60) keeps r,g,b <= a for all premultiplied d,b (one of the 257 weights)"
+pm_lerp_at!(k_pm_lerp_060, 60);
+// @ob id=K.pm_lerp_061 props=C18 kind=complete tier=thorough timeout=600 fns=sw_composite::lerp
+// @+ desc="lerp(d,b,61) keeps r,g,b <= a for all premultiplied d,b (one of the 257 weights)"
+pm_lerp_at!(k_pm_lerp_061, 61);
+// @ob id=K.pm_lerp_062 props=C18 kind=complete tier=thorough timeout=600 fns=sw_composite::lerp
+// @+ desc="lerp(d,b,62) keeps r,g,b <= a for all premultiplied d,b (one of the 257 weights)"
+pm_lerp_at!(k_pm_lerp_062, 62);
+// @ob id=K.pm_lerp_063 props=C18 kind=complete tier=thorough timeout=600 fns=sw_composite::lerp
+// @+ desc="lerp(d,b,63) keeps r,g,b <= a for all premultiplied d,b (one of the 257 weights)"
+pm_lerp_at!(k_pm_lerp_063, 63);
+// @ob id=K.pm_lerp_064 props=C18 kind=complete tier=thorough timeout=600 fns=sw_composite::lerp
+// @+ desc="lerp(d,b,64) keeps r,g,b <= a for all premultiplied d,b (one of the 257 weights)"
+pm_lerp_at!(k_pm_lerp_064, 64);
+// @ob id=K.pm_lerp_065 props=C18 kind=complete tier=thorough timeout=600 fns=sw_composite::lerp
+// @+ desc="lerp(d,b,65) keeps r,g,b <= a for all premultiplied d,b (one of the 257 weights)"
+pm_lerp_at!(k_pm_lerp_065, 65);
+// @ob id=K.pm_lerp_066 props=C18 kind=complete tier=thorough timeout=600 fns=sw_composite::lerp
+// @+ desc="lerp(d,b,66) keeps r,g,b <= a for all premultiplied d,b (one of the 257 weights)"
+pm_lerp_at!(k_pm_lerp_066, 66);
+// @ob id=K.pm_lerp_067 props=C18 kind=complete tier=thorough timeout=600 fns=sw_composite::lerp
+// @+ desc="lerp(d,b,67) keeps r,g,b <= a for all premultiplied d,b (one of the 257 weights)"
+pm_lerp_at!(k_pm_lerp_067, 67);
+// @ob id=K.pm_lerp_068 props=C18 kind=complete tier=thorough timeout=600 fns=sw_composite::lerp
+// @+ desc="lerp(d,b,68) keeps r,g,b <= a for all premultiplied d,b (one of the 257 weights)"
+pm_lerp_at!(k_pm_lerp_068, 68);
+// @ob id=K.pm_lerp_069 props=C18 kind=complete tier=thorough timeout=600 fns=sw_composite::lerp
+// @+ desc="lerp(d,b,69) keeps r,g,b <= a for all premultiplied d,b (one of the 257 weights)"
+pm_lerp_at!(k_pm_lerp_069, 69);
+// @ob id=K.pm_lerp_070 props=C18 kind=complete tier=thorough timeout=600 fns=sw_composite::lerp
+// @+ desc="lerp(d,b,70) keeps r,g,b <= a for all premultiplied d,b (one of the 257 weights)"
+pm_lerp_at!(k_pm_lerp_070, 70);
+// @ob id=K.pm_lerp_071 props=C18 kind=complete tier=thorough timeout=600 fns=sw_composite::lerp
+// @+ desc="lerp(d,b,71) keeps r,g,b <= a for all premultiplied d,b (one of the 257 weights)"
+pm_lerp_at!(k_pm_lerp_071, 71);
+// @ob id=K.pm_lerp_072 props=C18 kind=complete tier=thorough timeout=600 fns=sw_composite::lerp
+// @+ desc="lerp(d,b,72) keeps r,g,b <= a for all premultiplied d,b (one of the 257 weights)"
+pm_lerp_at!(k_pm_lerp_072, 72);
+// @ob id=K.pm_lerp_073 props=C18 kind=complete tier=thorough timeout=600 fns=sw_composite::lerp
+// @+ desc="lerp(d,b,73) keeps r,g,b <= a for all premultiplied d,b (one of the 257 weights)"
+pm_lerp_at!(k_pm_lerp_073, 73);
+// @ob id=K.pm_lerp_074 props=C18 kind=complete tier=thorough timeout=600 fns=sw_composite::lerp
+// @+ desc="lerp(d,b,74) keeps r,g,b <= a for all premultiplied d,b (one of the 257 weights)"
+pm_lerp_at!(k_pm_lerp_074, 74);
+// @ob id=K.pm_lerp_075 props=C18 kind=complete tier=thorough timeout=600 fns=sw_composite::lerp
+// @+ desc="lerp(d,b,75) keeps r,g,b <= a for all premultiplied d,b (one of the 257 weights)"
+pm_lerp_at!(k_pm_lerp_075, 75);
+// @ob id=K.pm_lerp_076 props=C18 kind=complete tier=thorough timeout=600 fns=sw_composite::lerp
+// @+ desc="lerp(d,b,76) keeps r,g,b <= a for all premultiplied d,b (one of the 257 weights)"
+pm_lerp_at!(k_pm_lerp_076, 76);
+// @ob id=K.pm_lerp_077 props=C18 kind=complete tier=thorough timeout=600 fns=sw_composite::lerp
+// @+ desc="lerp(d,b,77) keeps r,g,b <= a for all premultiplied d,b (one of the 257 weights)"
+pm_lerp_at!(k_pm_lerp_077, 77);
+// @ob id=K.pm_lerp_078 props=C18 kind=complete tier=thorough timeout=600 fns=sw_composite::lerp
+// @+ desc="lerp(d,b,78) keeps r,g,b <= a for all premultiplied d,b (one of the 257 weights)"
+pm_lerp_at!(k_pm_lerp_078, 78);
+// @ob id=K.pm_lerp_079 props=C18 kind=complete tier=thorough timeout=600 fns=sw_composite::lerp
+// @+ desc="lerp(d,b,79) keeps r,g,b <= a for all premultiplied d,b (one of the 257 weights)"
+pm_lerp_at!(k_pm_lerp_079, 79);
+// @ob id=K.pm_lerp_080 props=C18 kind=complete tier=thorough timeout=600 fns=sw_composite::lerp
+// @+ desc="lerp(d,b,80) keeps r,g,b <= a for all premultiplied d,b (one of the 257 weights)"
+pm_lerp_at!(k_pm_lerp_080, 80);
+// @ob id=K.pm_lerp_081 props=C18 kind=complete tier=thorough timeout=600 fns=sw_composite::lerp
+// @+ desc="lerp(d,b,81) keeps r,g,b <= a for all premultiplied d,b (one of the 257 weights)"
+pm_lerp_at!(k_pm_lerp_081, 81);
+// @ob id=K.pm_lerp_082 props=C18 kind=complete tier=thorough timeout=600 fns=sw_composite::lerp
+// @+ desc="lerp(d,b,82) keeps r,g,b <= a for all premultiplied d,b (one of the 257 weights)"
+pm_lerp_at!(k_pm_lerp_082, 82);
+// @ob id=K.pm_lerp_083 props=C18 kind=complete tier=thorough timeout=600 fns=sw_composite::lerp
+// @+ desc="lerp(d,b,83) keeps r,g,b <= a for all premultiplied d,b (one of the 257 weights)"
+pm_lerp_at!(k_pm_lerp_083, 83);
+// @ob id=K.pm_lerp_084 props=C18 kind=complete tier=thorough timeout=600 fns=sw_composite::lerp
+// @+ desc="lerp(d,b,84) keeps r,g,b <= a for all premultiplied d,b (one of the 257 weights)"
+pm_lerp_at!(k_pm_lerp_084, 84);
+// @ob id=K.pm_lerp_085 props=C18 kind=complete tier=thorough timeout=600 fns=sw_composite::lerp
+// @+ desc="lerp(d,b,85) keeps r,g,b <= a for all premultiplied d,b (one of the 257 weights)"
+pm_lerp_at!(k_pm_lerp_085, 85);
+// @ob id=K.pm_lerp_086 props=C18 kind=complete tier=thorough timeout=600 fns=sw_composite::lerp
+// @+ desc="lerp(d,b,86) keeps r,g,b <= a for all premultiplied d,b (one of the 257 weights)"
+pm_lerp_at!(k_pm_lerp_086, 86);
+// @ob id=K.pm_lerp_087 props=C18 kind=complete tier=thorough timeout=600 fns=sw_composite::lerp
+// @+ desc="lerp(d,b,87) keeps r,g,b <= a for all premultiplied d,b (one of the 257 weights)"
+pm_lerp_at!(k_pm_lerp_087, 87);
+// @ob id=K.pm_lerp_088 props=C18 kind=complete tier=thorough timeout=600 fns=sw_composite::lerp
+// @+ desc="lerp(d,b,88) keeps r,g,b <= a for all premultiplied d,b (one of the 257 weights)"
+pm_lerp_at!(k_pm_lerp_088, 88);
+// @ob id=K.pm_lerp_089 props=C18 kind=complete tier=thorough timeout=600 fns=sw_composite::lerp
+// @+ desc="lerp(d,b,89) keeps r,g,b <= a for all premultiplied d,b (one of the 257 weights)"
+pm_lerp_at!(k_pm_lerp_089, 89);
+// @ob id=K.pm_lerp_090 props=C18 kind=complete tier=thorough timeout=600 fns=sw_composite::lerp
+// @+ desc="lerp(d,b,90) keeps r,g,b <= a for all premultiplied d,b (one of the 257 weights)"
+pm_lerp_at!(k_pm_lerp_090, 90);
+// @ob id=K.pm_lerp_091 props=C18 kind=complete tier=thorough timeout=600 fns=sw_composite::lerp
+// @+ desc="lerp(d,b,91) keeps r,g,b <= a for all premultiplied d,b (one of the 257 weights)"
+pm_lerp_at!(k_pm_lerp_091, 91);
+// @ob id=K.pm_lerp_092 props=C18 kind=complete tier=thorough timeout=600 fns=sw_composite::lerp
+// @+ desc="lerp(d,b,92) keeps r,g,b <= a for all premultiplied d,b (one of the 257 weights)"
+pm_lerp_at!(k_pm_lerp_092, 92);
+// @ob id=K.pm_lerp_093 props=C18 kind=complete tier=thorough timeout=600 fns=sw_composite::lerp
+// @+ desc="lerp(d,b,93) keeps r,g,b <= a for all premultiplied d,b (one of the 257 weights)"
+pm_lerp_at!(k_pm_lerp_093, 93);
+// @ob id=K.pm_lerp_094 props=C18 kind=complete tier=thorough timeout=600 fns=sw_composite::lerp
+// @+ desc="lerp(d,b,94) keeps r,g,b <= a for all premultiplied d,b (one of the 257 weights)"
+pm_lerp_at!(k_pm_lerp_094, 94);
+// @ob id=K.pm_lerp_095 props=C18 kind=complete tier=thorough timeout=600 fns=sw_composite::lerp
+// @+ desc="lerp(d,b,95) keeps r,g,b <= a for all premultiplied d,b (one of the 257 weights)"
+pm_lerp_at!(k_pm_lerp_095, 95);
+// @ob id=K.pm_lerp_096 props=C18 kind=complete tier=thorough timeout=600 fns=sw_composite::lerp
+// @+ desc="lerp(d,b,96) keeps r,g,b <= a for all premultiplied d,b (one of the 257 weights)"
+pm_lerp_at!(k_pm_lerp_096, 96);
+// @ob id=K.pm_lerp_097 props=C18 kind=complete tier=thorough timeout=600 fns=sw_composite::lerp
+// @+ desc="lerp(d,b,97) keeps r,g,b <= a for all premultiplied d,b (one of the 257 weights)"
+pm_lerp_at!(k_pm_lerp_097, 97);
+// @ob id=K.pm_lerp_098 props=C18 kind=complete tier=thorough timeout=600 fns=sw_composite::lerp
+// @+ desc="lerp(d,b,98) keeps r,g,b <= a for all premultiplied d,b (one of the 257 weights)"
+pm_lerp_at!(k_pm_lerp_098, 98);
+// @ob id=K.pm_lerp_099 props=C18 kind=complete tier=thorough timeout=600 fns=sw_composite::lerp
+// @+ desc="lerp(d,b,99) keeps r,g,b <= a for all premultiplied d,b (one of the 257 weights)"
+pm_lerp_at!(k_pm_lerp_099, 99);
+// @ob id=K.pm_lerp_100 props=C18 kind=complete tier=thorough timeout=600 fns=sw_composite::lerp
+// @+ desc="lerp(d,b,100) keeps r,g,b <= a for all premultiplied d,b (one of the 257 weights)"
+pm_lerp_at!(k_pm_lerp_100, 100);
+// @ob id=K.pm_lerp_101 props=C18 kind=complete tier=thorough timeout=600 fns=sw_composite::lerp
+// @+ desc="lerp(d,b,101) keeps r,g,b <= a for all premultiplied d,b (one of the 257 weights)"
+pm_lerp_at!(k_pm_lerp_101, 101);
+// @ob id=K.pm_lerp_102 props=C18 kind=complete tier=thorough timeout=600 fns=sw_composite::lerp
+// @+ desc="lerp(d,b,102) keeps r,g,b <= a for all premultiplied d,b (one of the 257 weights)"
+pm_lerp_at!(k_pm_lerp_102, 102);
+// @ob id=K.pm_lerp_103 props=C18 kind=complete tier=thorough timeout=600 fns=sw_composite::lerp
+// @+ desc="lerp(d,b,103) keeps r,g,b <= a for all premultiplied d,b (one of the 257 weights)"
+pm_lerp_at!(k_pm_lerp_103, 103);
+// @ob id=K.pm_lerp_104 props=C18 kind=complete tier=thorough timeout=600 fns=sw_composite::lerp
+// @+ desc="lerp(d,b,104) keeps r,g,b <= a for all premultiplied d,b (one of the 257 weights)"
+pm_lerp_at!(k_pm_lerp_104, 104);
+// @ob id=K.pm_lerp_105 props=C18 kind=complete tier=thorough timeout=600 fns=sw_composite::lerp
+// @+ desc="lerp(d,b,105) keeps r,g,b <= a for all premultiplied d,b (one of the 257 weights)"
+pm_lerp_at!(k_pm_lerp_105, 105);
+// @ob id=K.pm_lerp_106 props=C18 kind=complete tier=thorough timeout=600 fns=sw_composite::lerp
+// @+ desc="lerp(d,b,106) keeps r,g,b <= a for all premultiplied d,b (one of the 257 weights)"
+pm_lerp_at!(k_pm_lerp_106, 106);
+// @ob id=K.pm_lerp_107 props=C18 kind=complete tier=thorough timeout=600 fns=sw_composite::lerp
+// @+ desc="lerp(d,b,107) keeps r,g,b <= a for all premultiplied d,b (one of the 257 weights)"
+pm_lerp_at!(k_pm_lerp_107, 107);
+// @ob id=K.pm_lerp_108 props=C18 kind=complete tier=thorough timeout=600 fns=sw_composite::lerp
+// @+ desc="lerp(d,b,108) keeps r,g,b <= a for all premultiplied d,b (one of the 257 weights)"
+pm_lerp_at!(k_pm_lerp_108, 108);
+// @ob id=K.pm_lerp_109 props=C18 kind=complete tier=thorough timeout=600 fns=sw_composite::lerp
+// @+ desc="lerp(d,b,109) keeps r,g,b <= a for all premultiplied d,b (one of the 257 weights)"
+pm_lerp_at!(k_pm_lerp_109, 109);
+// @ob id=K.pm_lerp_110 props=C18 kind=complete tier=thorough timeout=600 fns=sw_composite::lerp
+// @+ desc="lerp(d,b,110) keeps r,g,b <= a for all premultiplied d,b (one of the 257 weights)"
+pm_lerp_at!(k_pm_lerp_110, 110);
+// @ob id=K.pm_lerp_111 props=C18 kind=complete tier=thorough timeout=600 fns=sw_composite::lerp
+// @+ desc="lerp(d,b,111) keeps r,g,b <= a for all premultiplied d,b (one of the 257 weights)"
+pm_lerp_at!(k_pm_lerp_111, 111);
+// @ob id=K.pm_lerp_112 props=C18 kind=complete tier=thorough timeout=600 fns=sw_composite::lerp
+// @+ desc="lerp(d,b,112) keeps r,g,b <= a for all premultiplied d,b (one of the 257 weights)"
+pm_lerp_at!(k_pm_lerp_112, 112);
+// @ob id=K.pm_lerp_113 props=C18 kind=complete tier=thorough timeout=600 fns=sw_composite::lerp
+// @+ desc="lerp(d,b,113) keeps r,g,b <= a for all premultiplied d,b (one of the 257 weights)"
+pm_lerp_at!(k_pm_lerp_113, 113);
+// @ob id=K.pm_lerp_114 props=C18 kind=complete tier=thorough timeout=600 fns=sw_composite::lerp
+// @+ desc="lerp(d,b,114) keeps r,g,b <= a for all premultiplied d,b (one of the 257 weights)"
+pm_lerp_at!(k_pm_lerp_114, 114);
+// @ob id=K.pm_lerp_115 props=C18 kind=complete tier=thorough timeout=600 fns=sw_composite::lerp
+// @+ desc="lerp(d,b,115) keeps r,g,b <= a for all premultiplied d,b (one of the 257 weights)"
+pm_lerp_at!(k_pm_lerp_115, 115);
+// @ob id=K.pm_lerp_116 props=C18 kind=complete tier=thorough timeout=600 fns=sw_composite::lerp
+// @+ desc="lerp(d,b,116) keeps r,g,b <= a for all premultiplied d,b (one of the 257 weights)"
+pm_lerp_at!(k_pm_lerp_116, 116);
+// @ob id=K.pm_lerp_117 props=C18 kind=complete tier=thorough timeout=600 fns=sw_composite::lerp
+// @+ desc="lerp(d,b,117) keeps r,g,b <= a for all premultiplied d,b (one of the 257 weights)"
+pm_lerp_at!(k_pm_lerp_117, 117);
+// @ob id=K.pm_lerp_118 props=C18 kind=complete tier=thorough timeout=600 fns=sw_composite::lerp
+// @+ desc="lerp(d,b,118) keeps r,g,b <= a for all premultiplied d,b (one of the 257 weights)"
+pm_lerp_at!(k_pm_lerp_118, 118);
+// @ob id=K.pm_lerp_119 props=C18 kind=complete tier=thorough timeout=600 fns=sw_composite::lerp
+// @+ desc="lerp(d,b,119) keeps r,g,b <= a for all premultiplied d,b (one of the 257 weights)"
+pm_lerp_at!(k_pm_lerp_119, 119);
+// @ob id=K.pm_lerp_120 props=C18 kind=complete tier=thorough timeout=600 fns=sw_composite::lerp
+// @+ desc="lerp(d,b,120) keeps r,g,b <= a for all premultiplied d,b (one of the 257 weights)"
+pm_lerp_at!(k_pm_lerp_120, 120);
+// @ob id=K.pm_lerp_121 props=C18 kind=complete tier=thorough timeout=600 fns=sw_composite::lerp
+// @+ desc="lerp(d,b,121) keeps r,g,b <= a for all premultiplied d,b (one of the 257 weights)"
+pm_lerp_at!(k_pm_lerp_121, 121);
+// @ob id=K.pm_lerp_122 props=C18 kind=complete tier=thorough timeout=600 fns=sw_composite::lerp
+// @+ desc="lerp(d,b,122) keeps r,g,b <= a for all premultiplied d,b (one of the 257 weights)"
+pm_lerp_at!(k_pm_lerp_122, 122);
+// @ob id=K.pm_lerp_123 props=C18 kind=complete tier=thorough timeout=600 fns=sw_composite::lerp
+// @+ desc="lerp(d,b,123) keeps r,g,b <= a for all premultiplied d,b (one of the 257 weights)"
+pm_lerp_at!(k_pm_lerp_123, 123);
+// @ob id=K.pm_lerp_124 props=C18 kind=complete tier=thorough timeout=600 fns=sw_composite::lerp
+// @+ desc="lerp(d,b,124) keeps r,g,b <= a for all premultiplied d,b (one of the 257 weights)"
+pm_lerp_at!(k_pm_lerp_124, 124);
+// @ob id=K.pm_lerp_125 props=C18 kind=complete tier=thorough timeout=600 fns=sw_composite::lerp
+// @+ desc="lerp(d,b,125) keeps r,g,b <= a for all premultiplied d,b (one of the 257 weights)"
+pm_lerp_at!(k_pm_lerp_125, 125);
+// @ob id=K.pm_lerp_126 props=C18 kind=complete tier=thorough timeout=600 fns=sw_composite::lerp
+// @+ desc="lerp(d,b,126) keeps r,g,b <= a for all premultiplied d,b (one of the 257 weights)"
+pm_lerp_at!(k_pm_lerp_126, 126);
+// @ob id=K.pm_lerp_127 props=C18 kind=complete tier=thorough timeout=600 fns=sw_composite::lerp
+// @+ desc="lerp(d,b,127) keeps r,g,b <= a for all premultiplied d,b (one of the 257 weights)"
+pm_lerp_at!(k_pm_lerp_127, 127);
+// @ob id=K.pm_lerp_128 props=C18 kind=complete tier=quick timeout=600 fns=sw_composite::lerp
+// @+ desc="lerp(d,b,128) keeps r,g,b <= a for all premultiplied d,b (one of the 257 weights)"
+pm_lerp_at!(k_pm_lerp_128, 128);
+// @ob id=K.pm_lerp_129 props=C18 kind=complete tier=thorough timeout=600 fns=sw_composite::lerp
+// @+ desc="lerp(d,b,129) keeps r,g,b <= a for all premultiplied d,b (one of the 257 weights)"
+pm_lerp_at!(k_pm_lerp_129, 129);
+// @ob id=K.pm_lerp_130 props=C18 kind=complete tier=thorough timeout=600 fns=sw_composite::lerp
+// @+ desc="lerp(d,b,130) keeps r,g,b <= a for all premultiplied d,b (one of the 257 weights)"
+pm_lerp_at!(k_pm_lerp_130, 130);
+// @ob id=K.pm_lerp_131 props=C18 kind=complete tier=thorough timeout=600 fns=sw_composite::lerp
+// @+ desc="lerp(d,b,131) keeps r,g,b <= a for all premultiplied d,b (one of the 257 weights)"
+pm_lerp_at!(k_pm_lerp_131, 131);
+// @ob id=K.pm_lerp_132 props=C18 kind=complete tier=thorough timeout=600 fns=sw_composite::lerp
+// @+ desc="lerp(d,b,132) keeps r,g,b <= a for all premultiplied d,b (one of the 257 weights)"
+pm_lerp_at!(k_pm_lerp_132, 132);
+// @ob id=K.pm_lerp_133 props=C18 kind=complete tier=thorough timeout=600 fns=sw_composite::lerp
+// @+ desc="lerp(d,b,133) keeps r,g,b <= a for all premultiplied d,b (one of the 257 weights)"
+pm_lerp_at!(k_pm_lerp_133, 133);
+// @ob id=K.pm_lerp_134 props=C18 kind=complete tier=thorough timeout=600 fns=sw_composite::lerp
+// @+ desc="lerp(d,b,134) keeps r,g,b <= a for all premultiplied d,b (one of the 257 weights)"
+pm_lerp_at!(k_pm_lerp_134, 134);
+// @ob id=K.pm_lerp_135 props=C18 kind=complete tier=thorough timeout=600 fns=sw_composite::lerp
+// @+ desc="lerp(d,b,135) keeps r,g,b <= a for all premultiplied d,b (one of the 257 weights)"
+pm_lerp_at!(k_pm_lerp_135, 135);
+// @ob id=K.pm_lerp_136 props=C18 kind=complete tier=thorough timeout=600 fns=sw_composite::lerp
+// @+ desc="lerp(d,b,136) keeps r,g,b <= a for all premultiplied d,b (one of the 257 weights)"
+pm_lerp_at!(k_pm_lerp_136, 136);
+// @ob id=K.pm_lerp_137 props=C18 kind=complete tier=thorough timeout=600 fns=sw_composite::lerp
+// @+ desc="lerp(d,b,137) keeps r,g,b <= a for all premultiplied d,b (one of the 257 weights)"
+pm_lerp_at!(k_pm_lerp_137, 137);
+// @ob id=K.pm_lerp_138 props=C18 kind=complete tier=thorough timeout=600 fns=sw_composite::lerp
+// @+ desc="lerp(d,b,138) keeps r,g,b <= a for all premultiplied d,b (one of the 257 weights)"
+pm_lerp_at!(k_pm_lerp_138, 138);
+// @ob id=K.pm_lerp_139 props=C18 kind=complete tier=thorough timeout=600 fns=sw_composite::lerp
+// @+ desc="lerp(d,b,139) keeps r,g,b <= a for all premultiplied d,b (one of the 257 weights)"
+pm_lerp_at!(k_pm_lerp_139, 139);
+// @ob id=K.pm_lerp_140 props=C18 kind=complete tier=thorough timeout=600 fns=sw_composite::lerp
+// @+ desc="lerp(d,b,140) keeps r,g,b <= a for all premultiplied d,b (one of the 257 weights)"
+pm_lerp_at!(k_pm_lerp_140, 140);
+// @ob id=K.pm_lerp_141 props=C18 kind=complete tier=thorough timeout=600 fns=sw_composite::lerp
+// @+ desc="lerp(d,b,141) keeps r,g,b <= a for all premultiplied d,b (one of the 257 weights)"
+pm_lerp_at!(k_pm_lerp_141, 141);
+// @ob id=K.pm_lerp_142 props=C18 kind=complete tier=thorough timeout=600 fns=sw_composite::lerp
+// @+ desc="lerp(d,b,142) keeps r,g,b <= a for all premultiplied d,b (one of the 257 weights)"
+pm_lerp_at!(k_pm_lerp_142, 142);
+// @ob id=K.pm_lerp_143 props=C18 kind=complete tier=thorough timeout=600 fns=sw_composite::lerp
+// @+ desc="lerp(d,b,143) keeps r,g,b <= a for all premultiplied d,b (one of the 257 weights)"
+pm_lerp_at!(k_pm_lerp_143, 143);
+// @ob id=K.pm_lerp_144 props=C18 kind=complete tier=thorough timeout=600 fns=sw_composite::lerp
+// @+ desc="lerp(d,b,144) keeps r,g,b <= a for all premultiplied d,b (one of the 257 weights)"
+pm_lerp_at!(k_pm_lerp_144, 144);
+// @ob id=K.pm_lerp_145 props=C18 kind=complete tier=thorough timeout=600 fns=sw_composite::lerp
+// @+ desc="lerp(d,b,145) keeps r,g,b <= a for all premultiplied d,b (one of the 257 weights)"
+pm_lerp_at!(k_pm_lerp_145, 145);
+// @ob id=K.pm_lerp_146 props=C18 kind=complete tier=thorough timeout=600 fns=sw_composite::lerp
+// @+ desc="lerp(d,b,146) keeps r,g,b <= a for all premultiplied d,b (one of the 257 weights)"
+pm_lerp_at!(k_pm_lerp_146, 146);
+// @ob id=K.pm_lerp_147 props=C18 kind=complete tier=thorough timeout=600 fns=sw_composite::lerp
+// @+ desc="lerp(d,b,147) keeps r,g,b <= a for all premultiplied d,b (one of the 257 weights)"
+pm_lerp_at!(k_pm_lerp_147, 147);
+// @ob id=K.pm_lerp_148 props=C18 kind=complete tier=thorough timeout=600 fns=sw_composite::lerp
+// @+ desc="lerp(d,b,148) keeps r,g,b <= a for all premultiplied d,b (one of the 257 weights)"
+pm_lerp_at!(k_pm_lerp_148, 148);
+// @ob id=K.pm_lerp_149 props=C18 kind=complete tier=thorough timeout=600 fns=sw_composite::lerp
+// @+ desc="lerp(d,b,149) keeps r,g,b <= a for all premultiplied d,b (one of the 257 weights)"
+pm_lerp_at!(k_pm_lerp_149, 149);
+// @ob id=K.pm_lerp_150 props=C18 kind=complete tier=thorough timeout=600 fns=sw_composite::lerp
+// @+ desc="lerp(d,b,150) keeps r,g,b <= a for all premultiplied d,b (one of the 257 weights)"
+pm_lerp_at!(k_pm_lerp_150, 150);
+// @ob id=K.pm_lerp_151 props=C18 kind=complete tier=thorough timeout=600 fns=sw_composite::lerp
+// @+ desc="lerp(d,b,151) keeps r,g,b <= a for all premultiplied d,b (one of the 257 weights)"
+pm_lerp_at!(k_pm_lerp_151, 151);
+// @ob id=K.pm_lerp_152 props=C18 kind=complete tier=thorough timeout=600 fns=sw_composite::lerp
+// @+ desc="lerp(d,b,152) keeps r,g,b <= a for all premultiplied d,b (one of the 257 weights)"
+pm_lerp_at!(k_pm_lerp_152, 152);
+// @ob id=K.pm_lerp_153 props=C18 kind=complete tier=thorough timeout=600 fns=sw_composite::lerp
+// @+ desc="lerp(d,b,153) keeps r,g,b <= a for all premultiplied d,b (one of the 257 weights)"
+pm_lerp_at!(k_pm_lerp_153, 153);
+// @ob id=K.pm_lerp_154 props=C18 kind=complete tier=thorough timeout=600 fns=sw_composite::lerp
+// @+ desc="lerp(d,b,154) keeps r,g,b <= a for all premultiplied d,b (one of the 257 weights)"
+pm_lerp_at!(k_pm_lerp_154, 154);
+// @ob id=K.pm_lerp_155 props=C18 kind=complete tier=thorough timeout=600 fns=sw_composite::lerp
+// @+ desc="lerp(d,b,155) keeps r,g,b <= a for all premultiplied d,b (one of the 257 weights)"
+pm_lerp_at!(k_pm_lerp_155, 155);
+// @ob id=K.pm_lerp_156 props=C18 kind=complete tier=thorough timeout=600 fns=sw_composite::lerp
+// @+ desc="lerp(d,b,156) keeps r,g,b <= a for all premultiplied d,b (one of the 257 weights)"
+pm_lerp_at!(k_pm_lerp_156, 156);
+// @ob id=K.pm_lerp_157 props=C18 kind=complete tier=thorough timeout=600 fns=sw_composite::lerp
+// @+ desc="lerp(d,b,157) keeps r,g,b <= a for all premultiplied d,b (one of the 257 weights)"
+pm_lerp_at!(k_pm_lerp_157, 157);
+// @ob id=K.pm_lerp_158 props=C18 kind=complete tier=thorough timeout=600 fns=sw_composite::lerp
+// @+ desc="lerp(d,b,158) keeps r,g,b <= a for all premultiplied d,b (one of the 257 weights)"
+pm_lerp_at!(k_pm_lerp_158, 158);
+// @ob id=K.pm_lerp_159 props=C18 kind=complete tier=thorough timeout=600 fns=sw_composite::lerp
+// @+ desc="lerp(d,b,159) keeps r,g,b <= a for all premultiplied d,b (one of the 257 weights)"
+pm_lerp_at!(k_pm_lerp_159, 159);
+// @ob id=K.pm_lerp_160 props=C18 kind=complete tier=thorough timeout=600 fns=sw_composite::lerp
+// @+ desc="lerp(d,b,160) keeps r,g,b <= a for all premultiplied d,b (one of the 257 weights)"
+pm_lerp_at!(k_pm_lerp_160, 160);
+// @ob id=K.pm_lerp_161 props=C18 kind=complete tier=thorough timeout=600 fns=sw_composite::lerp
+// @+ desc="lerp(d,b,161) keeps r,g,b <= a for all premultiplied d,b (one of the 257 weights)"
+pm_lerp_at!(k_pm_lerp_161, 161);
+// @ob id=K.pm_lerp_162 props=C18 kind=complete tier=thorough timeout=600 fns=sw_composite::lerp
+// @+ desc="lerp(d,b,162) keeps r,g,b <= a for all premultiplied d,b (one of the 257 weights)"
+pm_lerp_at!(k_pm_lerp_162, 162);
+// @ob id=K.pm_lerp_163 props=C18 kind=complete tier=thorough timeout=600 fns=sw_composite::lerp
+// @+ desc="lerp(d,b,163) keeps r,g,b <= a for all premultiplied d,b (one of the 257 weights)"
+pm_lerp_at!(k_pm_lerp_163, 163);
+// @ob id=K.pm_lerp_164 props=C18 kind=complete tier=thorough timeout=600 fns=sw_composite::lerp
+// @+ desc="lerp(d,b,164) keeps r,g,b <= a for all premultiplied d,b (one of the 257 weights)"
+pm_lerp_at!(k_pm_lerp_164, 164);
+// @ob id=K.pm_lerp_165 props=C18 kind=complete tier=thorough timeout=600 fns=sw_composite::lerp
+// @+ desc="lerp(d,b,165) keeps r,g,b <= a for all premultiplied d,b (one of the 257 weights)"
+pm_lerp_at!(k_pm_lerp_165, 165);
+// @ob id=K.pm_lerp_166 props=C18 kind=complete tier=thorough timeout=600 fns=sw_composite::lerp
+// @+ desc="lerp(d,b,166) keeps r,g,b <= a for all premultiplied d,b (one of the 257 weights)"
+pm_lerp_at!(k_pm_lerp_166, 166);
+// @ob id=K.pm_lerp_167 props=C18 kind=complete tier=thorough timeout=600 fns=sw_composite::lerp
+// @+ desc="lerp(d,b,167) keeps r,g,b <= a for all premultiplied d,b (one of the 257 weights)"
+pm_lerp_at!(k_pm_lerp_167, 167);
+// @ob id=K.pm_lerp_168 props=C18 kind=complete tier=thorough timeout=600 fns=sw_composite::lerp
+// @+ desc="lerp(d,b,168) keeps r,g,b <= a for all premultiplied d,b (one of the 257 weights)"
+pm_lerp_at!(k_pm_lerp_168, 168);
+// @ob id=K.pm_lerp_169 props=C18 kind=complete tier=thorough timeout=600 fns=sw_composite::lerp
+// @+ desc="lerp(d,b,169) keeps r,g,b <= a for all premultiplied d,b (one of the 257 weights)"
+pm_lerp_at!(k_pm_lerp_169, 169);
+// @ob id=K.pm_lerp_170 props=C18 kind=complete tier=thorough timeout=600 fns=sw_composite::lerp
+// @+ desc="lerp(d,b,170) keeps r,g,b <= a for all premultiplied d,b (one of the 257 weights)"
+pm_lerp_at!(k_pm_lerp_170, 170);
+// @ob id=K.pm_lerp_171 props=C18 kind=complete tier=thorough timeout=600 fns=sw_composite::lerp
+// @+ desc="lerp(d,b,171) keeps r,g,b <= a for all premultiplied d,b (one of the 257 weights)"
+pm_lerp_at!(k_pm_lerp_171, 171);
+// @ob id=K.pm_lerp_172 props=C18 kind=complete tier=thorough timeout=600 fns=sw_composite::lerp
+// @+ desc="lerp(d,b,172) keeps r,g,b <= a for all premultiplied d,b (one of the 257 weights)"
+pm_lerp_at!(k_pm_lerp_172, 172);
+// @ob id=K.pm_lerp_173 props=C18 kind=complete tier=thorough timeout=600 fns=sw_composite::lerp
+// @+ desc="lerp(d,b,173) keeps r,g,b <= a for all premultiplied d,b (one of the 257 weights)"
+pm_lerp_at!(k_pm_lerp_173, 173);
+// @ob id=K.pm_lerp_174 props=C18 kind=complete tier=thorough timeout=600 fns=sw_composite::lerp
+// @+ desc="lerp(d,b,174) keeps r,g,b <= a for all premultiplied d,b (one of the 257 weights)"
+pm_lerp_at!(k_pm_lerp_174, 174);
+// @ob id=K.pm_lerp_175 props=C18 kind=complete tier=thorough timeout=600 fns=sw_composite::lerp
+// @+ desc="lerp(d,b,175) keeps r,g,b <= a for all premultiplied d,b (one of the 257 weights)"
+pm_lerp_at!(k_pm_lerp_175, 175);
+// @ob id=K.pm_lerp_176 props=C18 kind=complete tier=thorough timeout=600 fns=sw_composite::lerp
+// @+ desc="lerp(d,b,176) keeps r,g,b <= a for all premultiplied d,b (one of the 257 weights)"
+pm_lerp_at!(k_pm_lerp_176, 176);
+// @ob id=K.pm_lerp_177 props=C18 kind=complete tier=thorough timeout=600 fns=sw_composite::lerp
+// @+ desc="lerp(d,b,177) keeps r,g,b <= a for all premultiplied d,b (one of the 257 weights)"
+pm_lerp_at!(k_pm_lerp_177, 177);
+// @ob id=K.pm_lerp_178 props=C18 kind=complete tier=thorough timeout=600 fns=sw_composite::lerp
+// @+ desc="lerp(d,b,178) keeps r,g,b <= a for all premultiplied d,b (one of the 257 weights)"
+pm_lerp_at!(k_pm_lerp_178, 178);
+// @ob id=K.pm_lerp_179 props=C18 kind=complete tier=thorough timeout=600 fns=sw_composite::lerp
+// @+ desc="lerp(d,b,179) keeps r,g,b <= a for all premultiplied d,b (one of the 257 weights)"
+pm_lerp_at!(k_pm_lerp_179, 179);
+// @ob id=K.pm_lerp_180 props=C18 kind=complete tier=thorough timeout=600 fns=sw_composite::lerp
+// @+ desc="lerp(d,b,180) keeps r,g,b <= a for all premultiplied d,b (one of the 257 weights)"
+pm_lerp_at!(k_pm_lerp_180, 180);
+// @ob id=K.pm_lerp_181 props=C18 kind=complete tier=thorough timeout=600 fns=sw_composite::lerp
+// @+ desc="lerp(d,b,181) keeps r,g,b <= a for all premultiplied d,b (one of the 257 weights)"
+pm_lerp_at!(k_pm_lerp_181, 181);
+// @ob id=K.pm_lerp_182 props=C18 kind=complete tier=thorough timeout=600 fns=sw_composite::lerp
+// @+ desc="lerp(d,b,182) keeps r,g,b <= a for all premultiplied d,b (one of the 257 weights)"
+pm_lerp_at!(k_pm_lerp_182, 182);
+// @ob id=K.pm_lerp_183 props=C18 kind=complete tier=thorough timeout=600 fns=sw_composite::lerp
+// @+ desc="lerp(d,b,183) keeps r,g,b <= a for all premultiplied d,b (one of the 257 weights)"
+pm_lerp_at!(k_pm_lerp_183, 183);
+// @ob id=K.pm_lerp_184 props=C18 kind=complete tier=thorough timeout=600 fns=sw_composite::lerp
+// @+ desc="lerp(d,b,184) keeps r,g,b <= a for all premultiplied d,b (one of the 257 weights)"
+pm_lerp_at!(k_pm_lerp_184, 184);
+// @ob id=K.pm_lerp_185 props=C18 kind=complete tier=thorough timeout=600 fns=sw_composite::lerp
+// @+ desc="lerp(d,b,185) keeps r,g,b <= a for all premultiplied d,b (one of the 257 weights)"
+pm_lerp_at!(k_pm_lerp_185, 185);
+// @ob id=K.pm_lerp_186 props=C18 kind=complete tier=thorough timeout=600 fns=sw_composite::lerp
+// @+ desc="lerp(d,b,186) keeps r,g,b <= a for all premultiplied d,b (one of the 257 weights)"
+pm_lerp_at!(k_pm_lerp_186, 186);
+// @ob id=K.pm_lerp_187 props=C18 kind=complete tier=thorough timeout=600 fns=sw_composite::lerp
+// @+ desc="lerp(d,b,187) keeps r,g,b <= a for all premultiplied d,b (one of the 257 weights)"
+pm_lerp_at!(k_pm_lerp_187, 187);
+// @ob id=K.pm_lerp_188 props=C18 kind=complete tier=thorough timeout=600 fns=sw_composite::lerp
+// @+ desc="lerp(d,b,188) keeps r,g,b <= a for all premultiplied d,b (one of the 257 weights)"
+pm_lerp_at!(k_pm_lerp_188, 188);
+// @ob id=K.pm_lerp_189 props=C18 kind=complete tier=thorough timeout=600 fns=sw_composite::lerp
+// @+ desc="lerp(d,b,189) keeps r,g,b <= a for all premultiplied d,b (one of the 257 weights)"
+pm_lerp_at!(k_pm_lerp_189, 189);
+// @ob id=K.pm_lerp_190 props=C18 kind=complete tier=thorough timeout=600 fns=sw_composite::lerp
+// @+ desc="lerp(d,b,190) keeps r,g,b <= a for all premultiplied d,b (one of the 257 weights)"
+pm_lerp_at!(k_pm_lerp_190, 190);
+// @ob id=K.pm_lerp_191 props=C18 kind=complete tier=thorough timeout=600 fns=sw_composite::lerp
+// @+ desc="lerp(d,b,191) keeps r,g,b <= a for all premultiplied d,b (one of the 257 weights)"
+pm_lerp_at!(k_pm_lerp_191, 191);
+// @ob id=K.pm_lerp_192 props=C18 kind=complete tier=thorough timeout=600 fns=sw_composite::lerp
+// @+ desc="lerp(d,b,192) keeps r,g,b <= a for all premultiplied d,b (one of the 257 weights)"
+pm_lerp_at!(k_pm_lerp_192, 192);
+// @ob id=K.pm_lerp_193 props=C18 kind=complete tier=thorough timeout=600 fns=sw_composite::lerp
+// @+ desc="lerp(d,b,193) keeps r,g,b <= a for all premultiplied d,b (one of the 257 weights)"
+pm_lerp_at!(k_pm_lerp_193, 193);
+// @ob id=K.pm_lerp_194 props=C18 kind=complete tier=thorough timeout=600 fns=sw_composite::lerp
+// @+ desc="lerp(d,b,194) keeps r,g,b <= a for all premultiplied d,b (one of the 257 weights)"
+pm_lerp_at!(k_pm_lerp_194, 194);
+// @ob id=K.pm_lerp_195 props=C18 kind=complete tier=thorough timeout=600 fns=sw_composite::lerp
+// @+ desc="lerp(d,b,195) keeps r,g,b <= a for all premultiplied d,b (one of the 257 weights)"
+pm_lerp_at!(k_pm_lerp_195, 195);
+// @ob id=K.pm_lerp_196 props=C18 kind=complete tier=thorough timeout=600 fns=sw_composite::lerp
+// @+ desc="lerp(d,b,196) keeps r,g,b <= a for all premultiplied d,b (one of the 257 weights)"
+pm_lerp_at!(k_pm_lerp_196, 196);
+// @ob id=K.pm_lerp_197 props=C18 kind=complete tier=thorough timeout=600 fns=sw_composite::lerp
+// @+ desc="lerp(d,b,197) keeps r,g,b <= a for all premultiplied d,b (one of the 257 weights)"
+pm_lerp_at!(k_pm_lerp_197, 197);
+// @ob id=K.pm_lerp_198 props=C18 kind=complete tier=thorough timeout=600 fns=sw_composite::lerp
+// @+ desc="lerp(d,b,198) keeps r,g,b <= a for all premultiplied d,b (one of the 257 weights)"
+pm_lerp_at!(k_pm_lerp_198, 198);
+// @ob id=K.pm_lerp_199 props=C18 kind=complete tier=thorough timeout=600 fns=sw_composite::lerp
+// @+ desc="lerp(d,b,199) keeps r,g,b <= a for all premultiplied d,b (one of the 257 weights)"
+pm_lerp_at!(k_pm_lerp_199, 199);
+// @ob id=K.pm_lerp_200 props=C18 kind=complete tier=thorough timeout=600 fns=sw_composite::lerp
+// @+ desc="lerp(d,b,200) keeps r,g,b <= a for all premultiplied d,b (one of the 257 weights)"
+pm_lerp_at!(k_pm_lerp_200, 200);
+// @ob id=K.pm_lerp_201 props=C18 kind=complete tier=thorough timeout=600 fns=sw_composite::lerp
+// @+ desc="lerp(d,b,201) keeps r,g,b <= a for all premultiplied d,b (one of the 257 weights)"
+pm_lerp_at!(k_pm_lerp_201, 201);
+// @ob id=K.pm_lerp_202 props=C18 kind=complete tier=thorough timeout=600 fns=sw_composite::lerp
+// @+ desc="lerp(d,b,202) keeps r,g,b <= a for all premultiplied d,b (one of the 257 weights)"
+pm_lerp_at!(k_pm_lerp_202, 202);
+// @ob id=K.pm_lerp_203 props=C18 kind=complete tier=thorough timeout=600 fns=sw_composite::lerp
+// @+ desc="lerp(d,b,203) keeps r,g,b <= a for all premultiplied d,b (one of the 257 weights)"
+pm_lerp_at!(k_pm_lerp_203, 203);
+// @ob id=K.pm_lerp_204 props=C18 kind=complete tier=thorough timeout=600 fns=sw_composite::lerp
+// @+ desc="lerp(d,b,204) keeps r,g,b <= a for all premultiplied d,b (one of the 257 weights)"
+pm_lerp_at!(k_pm_lerp_204, 204);
+// @ob id=K.pm_lerp_205 props=C18 kind=complete tier=thorough timeout=600 fns=sw_composite::lerp
+// @+ desc="lerp(d,b,205) keeps r,g,b <= a for all premultiplied d,b (one of the 257 weights)"
+pm_lerp_at!(k_pm_lerp_205, 205);
+// @ob id=K.pm_lerp_206 props=C18 kind=complete tier=thorough timeout=600 fns=sw_composite::lerp
+// @+ desc="lerp(d,b,206) keeps r,g,b <= a for all premultiplied d,b (one of the 257 weights)"
+pm_lerp_at!(k_pm_lerp_206, 206);
+// @ob id=K.pm_lerp_207 props=C18 kind=complete tier=thorough timeout=600 fns=sw_composite::lerp
+// @+ desc="lerp(d,b,207) keeps r,g,b <= a for all premultiplied d,b (one of the 257 weights)"
+pm_lerp_at!(k_pm_lerp_207, 207);
+// @ob id=K.pm_lerp_208 props=C18 kind=complete tier=thorough timeout=600 fns=sw_composite::lerp
+// @+ desc="lerp(d,b,208) keeps r,g,b <= a for all premultiplied d,b (one of the 257 weights)"
+pm_lerp_at!(k_pm_lerp_208, 208);
+// @ob id=K.pm_lerp_209 props=C18 kind=complete tier=thorough timeout=600 fns=sw_composite::lerp
+// @+ desc="lerp(d,b,209) keeps r,g,b <= a for all premultiplied d,b (one of the 257 weights)"
+pm_lerp_at!(k_pm_lerp_209, 209);
+// @ob id=K.pm_lerp_210 props=C18 kind=complete tier=thorough timeout=600 fns=sw_composite::lerp
+// @+ desc="lerp(d,b,210) keeps r,g,b <= a for all premultiplied d,b (one of the 257 weights)"
+pm_lerp_at!(k_pm_lerp_210, 210);
+// @ob id=K.pm_lerp_211 props=C18 kind=complete tier=thorough timeout=600 fns=sw_composite::lerp
+// @+ desc="lerp(d,b,211) keeps r,g,b <= a for all premultiplied d,b (one of the 257 weights)"
+pm_lerp_at!(k_pm_lerp_211, 211);
+// @ob id=K.pm_lerp_212 props=C18 kind=complete tier=thorough timeout=600 fns=sw_composite::lerp
+// @+ desc="lerp(d,b,212) keeps r,g,b <= a for all premultiplied d,b (one of the 257 weights)"
+pm_lerp_at!(k_pm_lerp_212, 212);
+// @ob id=K.pm_lerp_213 props=C18 kind=complete tier=thorough timeout=600 fns=sw_composite::lerp
+// @+ desc="lerp(d,b,213) keeps r,g,b <= a for all premultiplied d,b (one of the 257 weights)"
+pm_lerp_at!(k_pm_lerp_213, 213);
+// @ob id=K.pm_lerp_214 props=C18 kind=complete tier=thorough timeout=600 fns=sw_composite::lerp
+// @+ desc="lerp(d,b,214) keeps r,g,b <= a for all premultiplied d,b (one of the 257 weights)"
+pm_lerp_at!(k_pm_lerp_214, 214);
+// @ob id=K.pm_lerp_215 props=C18 kind=complete tier=thorough timeout=600 fns=sw_composite::lerp
+// @+ desc="lerp(d,b,215) keeps r,g,b <= a for all premultiplied d,b (one of the 257 weights)"
+pm_lerp_at!(k_pm_lerp_215, 215);
+// @ob id=K.pm_lerp_216 props=C18 kind=complete tier=thorough timeout=600 fns=sw_composite::lerp
+// @+ desc="lerp(d,b,216) keeps r,g,b <= a for all premultiplied d,b (one of the 257 weights)"
+pm_lerp_at!(k_pm_lerp_216, 216);
+// @ob id=K.pm_lerp_217 props=C18 kind=complete tier=thorough timeout=600 fns=sw_composite::lerp
+// @+ desc="lerp(d,b,217) keeps r,g,b <= a for all premultiplied d,b (one of the 257 weights)"
+pm_lerp_at!(k_pm_lerp_217, 217);
+// @ob id=K.pm_lerp_218 props=C18 kind=complete tier=thorough timeout=600 fns=sw_composite::lerp
+// @+ desc="lerp(d,b,218) keeps r,g,b <= a for all premultiplied d,b (one of the 257 weights)"
+pm_lerp_at!(k_pm_lerp_218, 218);
+// @ob id=K.pm_lerp_219 props=C18 kind=complete tier=thorough timeout=600 fns=sw_composite::lerp
+// @+ desc="lerp(d,b,219) keeps r,g,b <= a for all premultiplied d,b (one of the 257 weights)"
+pm_lerp_at!(k_pm_lerp_219, 219);
+// @ob id=K.pm_lerp_220 props=C18 kind=complete tier=thorough timeout=600 fns=sw_composite::lerp
+// @+ desc="lerp(d,b,220) keeps r,g,b <= a for all premultiplied d,b (one of the 257 weights)"
+pm_lerp_at!(k_pm_lerp_220, 220);
+// @ob id=K.pm_lerp_221 props=C18 kind=complete tier=thorough timeout=600 fns=sw_composite::lerp
+// @+ desc="lerp(d,b,221) keeps r,g,b <= a for all premultiplied d,b (one of the 257 weights)"
+pm_lerp_at!(k_pm_lerp_221, 221);
+// @ob id=K.pm_lerp_222 props=C18 kind=complete tier=thorough timeout=600 fns=sw_composite::lerp
+// @+ desc="lerp(d,b,222) keeps r,g,b <= a for all premultiplied d,b (one of the 257 weights)"
+pm_lerp_at!(k_pm_lerp_222, 222);
+// @ob id=K.pm_lerp_223 props=C18 kind=complete tier=thorough timeout=600 fns=sw_composite::lerp
+// @+ desc="lerp(d,b,223) keeps r,g,b <= a for all premultiplied d,b (one of the 257 weights)"
+pm_lerp_at!(k_pm_lerp_223, 223);
+// @ob id=K.pm_lerp_224 props=C18 kind=complete tier=thorough timeout=600 fns=sw_composite::lerp
+// @+ desc="lerp(d,b,224) keeps r,g,b <= a for all premultiplied d,b (one of the 257 weights)"
+pm_lerp_at!(k_pm_lerp_224, 224);
+// @ob id=K.pm_lerp_225 props=C18 kind=complete tier=thorough timeout=600 fns=sw_composite::lerp
+// @+ desc="lerp(d,b,225) keeps r,g,b <= a for all premultiplied d,b (one of the 257 weights)"
+pm_lerp_at!(k_pm_lerp_225, 225);
+// @ob id=K.pm_lerp_226 props=C18 kind=complete tier=thorough timeout=600 fns=sw_composite::lerp
+// @+ desc="lerp(d,b,226) keeps r,g,b <= a for all premultiplied d,b (one of the 257 weights)"
+pm_lerp_at!(k_pm_lerp_226, 226);
+// @ob id=K.pm_lerp_227 props=C18 kind=complete tier=thorough timeout=600 fns=sw_composite::lerp
+// @+ desc="lerp(d,b,227) keeps r,g,b <= a for all premultiplied d,b (one of the 257 weights)"
+pm_lerp_at!(k_pm_lerp_227, 227);
+// @ob id=K.pm_lerp_228 props=C18 kind=complete tier=thorough timeout=600 fns=sw_composite::lerp
+// @+ desc="lerp(d,b,228) keeps r,g,b <= a for all premultiplied d,b (one of the 257 weights)"
+pm_lerp_at!(k_pm_lerp_228, 228);
+// @ob id=K.pm_lerp_229 props=C18 kind=complete tier=thorough timeout=600 fns=sw_composite::lerp
+// @+ desc="lerp(d,b,229) keeps r,g,b <= a for all premultiplied d,b (one of the 257 weights)"
+pm_lerp_at!(k_pm_lerp_229, 229);
+// @ob id=K.pm_lerp_230 props=C18 kind=complete tier=thorough timeout=600 fns=sw_composite::lerp
+// @+ desc="lerp(d,b,230) keeps r,g,b <= a for all premultiplied d,b (one of the 257 weights)"
+pm_lerp_at!(k_pm_lerp_230, 230);
+// @ob id=K.pm_lerp_231 props=C18 kind=complete tier=thorough timeout=600 fns=sw_composite::lerp
+// @+ desc="lerp(d,b,231) keeps r,g,b <= a for all premultiplied d,b (one of the 257 weights)"
+pm_lerp_at!(k_pm_lerp_231, 231);
+// @ob id=K.pm_lerp_232 props=C18 kind=complete tier=thorough timeout=600 fns=sw_composite::lerp
+// @+ desc="lerp(d,b,232) keeps r,g,b <= a for all premultiplied d,b (one of the 257 weights)"
+pm_lerp_at!(k_pm_lerp_232, 232);
+// @ob id=K.pm_lerp_233 props=C18 kind=complete tier=thorough timeout=600 fns=sw_composite::lerp
+// @+ desc="lerp(d,b,233) keeps r,g,b <= a for all premultiplied d,b (one of the 257 weights)"
+pm_lerp_at!(k_pm_lerp_233, 233);
+// @ob id=K.pm_lerp_234 props=C18 kind=complete tier=thorough timeout=600 fns=sw_composite::lerp
+// @+ desc="lerp(d,b,234) keeps r,g,b <= a for all premultiplied d,b (one of the 257 weights)"
+pm_lerp_at!(k_pm_lerp_234, 234);
+// @ob id=K.pm_lerp_235 props=C18 kind=complete tier=thorough timeout=600 fns=sw_composite::lerp
+// @+ desc="lerp(d,b,235) keeps r,g,b <= a for all premultiplied d,b (one of the 257 weights)"
+pm_lerp_at!(k_pm_lerp_235, 235);
+// @ob id=K.pm_lerp_236 props=C18 kind=complete tier=thorough timeout=600 fns=sw_composite::lerp
+// @+ desc="lerp(d,b,236) keeps r,g,b <= a for all premultiplied d,b (one of the 257 weights)"
+pm_lerp_at!(k_pm_lerp_236, 236);
+// @ob id=K.pm_lerp_237 props=C18 kind=complete tier=thorough timeout=600 fns=sw_composite::lerp
+// @+ desc="lerp(d,b,237) keeps r,g,b <= a for all premultiplied d,b (one of the 257 weights)"
+pm_lerp_at!(k_pm_lerp_237, 237);
+// @ob id=K.pm_lerp_238 props=C18 kind=complete tier=thorough timeout=600 fns=sw_composite::lerp
+// @+ desc="lerp(d,b,238) keeps r,g,b <= a for all premultiplied d,b (one of the 257 weights)"
+pm_lerp_at!(k_pm_lerp_238, 238);
+// @ob id=K.pm_lerp_239 props=C18 kind=complete tier=thorough timeout=600 fns=sw_composite::lerp
+// @+ desc="lerp(d,b,239) keeps r,g,b <= a for all premultiplied d,b (one of the 257 weights)"
+pm_lerp_at!(k_pm_lerp_239, 239);
+// @ob id=K.pm_lerp_240 props=C18 kind=complete tier=thorough timeout=600 fns=sw_composite::lerp
+// @+ desc="lerp(d,b,240) keeps r,g,b <= a for all premultiplied d,b (one of the 257 weights)"
+pm_lerp_at!(k_pm_lerp_240, 240);
+// @ob id=K.pm_lerp_241 props=C18 kind=complete tier=thorough timeout=600 fns=sw_composite::lerp
+// @+ desc="lerp(d,b,241) keeps r,g,b <= a for all premultiplied d,b (one of the 257 weights)"
+pm_lerp_at!(k_pm_lerp_241, 241);
+// @ob id=K.pm_lerp_242 props=C18 kind=complete tier=thorough timeout=600 fns=sw_composite::lerp
+// @+ desc="lerp(d,b,242) keeps r,g,b <= a for all premultiplied d,b (one of the 257 weights)"
+pm_lerp_at!(k_pm_lerp_242, 242);
+// @ob id=K.pm_lerp_243 props=C18 kind=complete tier=thorough timeout=600 fns=sw_composite::lerp
+// @+ desc="lerp(d,b,243) keeps r,g,b <= a for all premultiplied d,b (one of the 257 weights)"
+pm_lerp_at!(k_pm_lerp_243, 243);
+// @ob id=K.pm_lerp_244 props=C18 kind=complete tier=thorough timeout=600 fns=sw_composite::lerp
+// @+ desc="lerp(d,b,244) keeps r,g,b <= a for all premultiplied d,b (one of the 257 weights)"
+pm_lerp_at!(k_pm_lerp_244, 244);
+// @ob id=K.pm_lerp_245 props=C18 kind=complete tier=thorough timeout=600 fns=sw_composite::lerp
+// @+ desc="lerp(d,b,245) keeps r,g,b <= a for all premultiplied d,b (one of the 257 weights)"
+pm_lerp_at!(k_pm_lerp_245, 245);
+// @ob id=K.pm_lerp_246 props=C18 kind=complete tier=thorough timeout=600 fns=sw_composite::lerp
+// @+ desc="lerp(d,b,246) keeps r,g,b <= a for all premultiplied d,b (one of the 257 weights)"
+pm_lerp_at!(k_pm_lerp_246, 246);
+// @ob id=K.pm_lerp_247 props=C18 kind=complete tier=thorough timeout=600 fns=sw_composite::lerp
+// @+ desc="lerp(d,b,247) keeps r,g,b <= a for all premultiplied d,b (one of the 257 weights)"
+pm_lerp_at!(k_pm_lerp_247, 247);
+// @ob id=K.pm_lerp_248 props=C18 kind=complete tier=thorough timeout=600 fns=sw_composite::lerp
+// @+ desc="lerp(d,b,248) keeps r,g,b <= a for all premultiplied d,b (one of the 257 weights)"
+pm_lerp_at!(k_pm_lerp_248, 248);
+// @ob id=K.pm_lerp_249 props=C18 kind=complete tier=thorough timeout=600 fns=sw_composite::lerp
+// @+ desc="lerp(d,b,249) keeps r,g,b <= a for all premultiplied d,b (one of the 257 weights)"
+pm_lerp_at!(k_pm_lerp_249, 249);
+// @ob id=K.pm_lerp_250 props=C18 kind=complete tier=thorough timeout=600 fns=sw_composite::lerp
+// @+ desc="lerp(d,b,250) keeps r,g,b <= a for all premultiplied d,b (one of the 257 weights)"
+pm_lerp_at!(k_pm_lerp_250, 250);
+// @ob id=K.pm_lerp_251 props=C18 kind=complete tier=thorough timeout=600 fns=sw_composite::lerp
+// @+ desc="lerp(d,b,251) keeps r,g,b <= a for all premultiplied d,b (one of the 257 weights)"
+pm_lerp_at!(k_pm_lerp_251, 251);
+// @ob id=K.pm_lerp_252 props=C18 kind=complete tier=thorough timeout=600 fns=sw_composite::lerp
+// @+ desc="lerp(d,b,252) keeps r,g,b <= a for all premultiplied d,b (one of the 257 weights)"
+pm_lerp_at!(k_pm_lerp_252, 252);
+// @ob id=K.pm_lerp_253 props=C18 kind=complete tier=thorough timeout=600 fns=sw_composite::lerp
+// @+ desc="lerp(d,b,253) keeps r,g,b <= a for all premultiplied d,b (one of the 257 weights)"
+pm_lerp_at!(k_pm_lerp_253, 253);
+// @ob id=K.pm_lerp_254 props=C18 kind=complete tier=thorough timeout=600 fns=sw_composite::lerp
+// @+ desc="lerp(d,b,254) keeps r,g,b <= a for all premultiplied d,b (one of the 257 weights)"
+pm_lerp_at!(k_pm_lerp_254, 254);
+// @ob id=K.pm_lerp_255 props=C18 kind=complete tier=quick timeout=600 fns=sw_composite::lerp
+// @+ desc="lerp(d,b,255) keeps r,g,b <= a for all premultiplied d,b (one of the 257 weights)"
+pm_lerp_at!(k_pm_lerp_255, 255);
+// @ob id=K.pm_lerp_256 props=C18 kind=complete tier=quick timeout=600 fns=sw_composite::lerp
+// @+ desc="lerp(d,b,256) keeps r,g,b <= a for all premultiplied d,b (one of the 257 weights)"
+pm_lerp_at!(k_pm_lerp_256, 256);
